@@ -4,6 +4,7 @@ strictly increasing nonce order, higher priority class first; count = number pen
 Helper lemmas are in the `Lemmas` section; the property theorems follow the marker line.
 -/
 import PalomaModel.Model.Mempool
+import PalomaModel.Gen.Mempool
 
 namespace Paloma.Mempool
 
@@ -204,10 +205,11 @@ def pendingStep (P : List Tx) : Op → List Tx
 /-- the pending set after a history -/
 def pending (ops : List Op) : List Tx := ops.foldl pendingStep []
 
-/-- the property's precondition for one operation in pending set `P`: an inserted transaction
-    has a (sender, nonce) that is not pending — or, slightly more generally, it replaces a
-    pending transaction of the *same* priority.  Nothing else: in particular no condition on
-    the priority value (the `MinValue` sentinel is handled separately, see `NoMin`). -/
+/-- the ASSUMPTION of the theorems for one operation in pending set `P` (stronger than the property's
+    literal precondition, see the reading guide): an inserted transaction has a (sender, nonce) that is
+    not pending — or it replaces a pending transaction of the *same* priority.  Nothing else: in
+    particular no condition on the priority value (the `MinValue` sentinel is handled separately, see
+    `NoMin`). -/
 def OpOk (P : List Tx) : Op → Prop
   | .insert s n p _ => ∀ t ∈ P, t.sender = s ∧ t.nonce = n → t.prio = p
   | _ => True
@@ -216,7 +218,8 @@ def AdmFrom (P : List Tx) : List Op → Prop
   | [] => True
   | op :: ops => OpOk P op ∧ AdmFrom (pendingStep P op) ops
 
-/-- (sender, nonce) unique among pending transactions along the whole history -/
+/-- no `insert` of the history hits a pending (sender, nonce) with a CHANGED priority (this is NOT the
+    literal "(sender, nonce) unique among pending", which holds for every history: `KeysUnique`) -/
 def Admissible (ops : List Op) : Prop := AdmFrom [] ops
 
 /-- the indices describe the pending set `P` -/
@@ -1474,6 +1477,17 @@ theorem rankPrio_lt (a b : Nat) (hb : b ≤ 4) (hab : a < b) (c1 c2 : Int)
     | omega
     | (simp [rankPrio, maxInt64] at h1 ⊢ <;> omega)
 
+/-- the bound on the CheckTx priority matters only for the class "all others" -/
+theorem rankPrio_lt' (a b : Nat) (hb : b ≤ 4) (hab : a < b) (c1 c2 : Int)
+    (h1 : a = 0 → c1 < maxInt64 - 3) : rankPrio a c1 < rankPrio b c2 := by
+  have ha : a = 0 ∨ a = 1 ∨ a = 2 ∨ a = 3 := by omega
+  have hb' : b = 1 ∨ b = 2 ∨ b = 3 ∨ b = 4 := by omega
+  rcases ha with rfl | rfl | rfl | rfl <;> rcases hb' with rfl | rfl | rfl | rfl <;>
+    first
+    | omega
+    | (have h1 := h1 rfl; simp [rankPrio, maxInt64] at h1 ⊢ <;> omega)
+    | (simp [rankPrio, maxInt64])
+
 theorem rankPrio_bounds (a : Nat) (c : Int) (hc : minInt64 ≤ c ∧ c ≤ maxInt64) :
     minInt64 ≤ rankPrio a c ∧ rankPrio a c ≤ maxInt64 ∧ (minInt64 < c → minInt64 < rankPrio a c) := by
   unfold rankPrio
@@ -1590,24 +1604,1756 @@ theorem noMin_of_ctx {tops : List TxOp} (h : Int64Ctx tops)
   rw [hp, txPriority_rank]
   omega
 
+/-! ### the literal precondition, and the two honest ones -/
+
+theorem step_keys_nodup (P : List Tx) (op : Op) (h : (P.map Tx.skey).Nodup) :
+    ((pendingStep P op).map Tx.skey).Nodup := by
+  cases op with
+  | insert s n p id =>
+    simp only [pendingStep, List.map_cons, List.nodup_cons]
+    refine ⟨?_, List.Nodup.sublist (List.Sublist.map _ List.filter_sublist) h⟩
+    intro hm
+    obtain ⟨t, ht, e⟩ := List.mem_map.mp hm
+    have := (List.mem_filter.mp ht).2
+    simp only [Tx.skey, Prod.mk.injEq] at e
+    simp [e.1, e.2] at this
+  | remove s n =>
+    exact List.Nodup.sublist (List.Sublist.map _ List.filter_sublist) h
+  | select => exact h
+
+theorem fold_keys_nodup (ops : List Op) : ∀ P : List Tx, (P.map Tx.skey).Nodup →
+    ((ops.foldl pendingStep P).map Tx.skey).Nodup := by
+  induction ops with
+  | nil => intro P h; exact h
+  | cons op ops ih => intro P h; exact ih _ (step_keys_nodup P op h)
+
+/-- the LITERAL precondition of the property text: at every point of the history (every prefix),
+    (sender, sequence) is unique among the pending transactions -/
+def KeysUnique (ops : List Op) : Prop :=
+  ∀ pre, pre <+: ops → ((pending pre).map Tx.skey).Nodup
+
+/-- an operation never inserts on a pending (sender, nonce) at all -/
+def OpFresh (P : List Tx) : Op → Prop
+  | .insert s n _ _ => ∀ t ∈ P, ¬ (t.sender = s ∧ t.nonce = n)
+  | _ => True
+
+def FreshFrom (P : List Tx) : List Op → Prop
+  | [] => True
+  | op :: ops => OpFresh P op ∧ FreshFrom (pendingStep P op) ops
+
+/-- no `insert` of the history hits a (sender, nonce) that is pending at that moment -/
+def Fresh (ops : List Op) : Prop := FreshFrom [] ops
+
+theorem freshFrom_adm (ops : List Op) : ∀ P, FreshFrom P ops → AdmFrom P ops := by
+  induction ops with
+  | nil => intro _ _; trivial
+  | cons op ops ih =>
+    intro P h
+    refine ⟨?_, ih _ h.2⟩
+    cases op with
+    | insert s n p id => intro t ht hk; exact absurd hk (h.1 t ht)
+    | remove s n => trivial
+    | select => trivial
+
+theorem freshFrom_append (a b : List Op) : ∀ P : List Tx,
+    FreshFrom P (a ++ b) ↔ FreshFrom P a ∧ FreshFrom (a.foldl pendingStep P) b := by
+  induction a with
+  | nil => intro P; simp [FreshFrom]
+  | cons op a ih => intro P; simp only [List.cons_append, FreshFrom, List.foldl_cons, ih, and_assoc]
+
+/-- `Admissible`, said on the prefixes of the history instead of recursively: whenever the
+    history inserts (s, n) with priority `p` after the operations `pre`, a transaction with that
+    (sender, nonce) that is pending after `pre` has the same priority `p` -/
+theorem admFrom_iff_prefix (ops : List Op) : ∀ P : List Tx,
+    AdmFrom P ops ↔ ∀ pre s n p id post, ops = pre ++ .insert s n p id :: post →
+      ∀ t ∈ pre.foldl pendingStep P, t.sender = s ∧ t.nonce = n → t.prio = p := by
+  induction ops with
+  | nil =>
+    intro P
+    refine ⟨fun _ pre s n p id post e => ?_, fun _ => trivial⟩
+    cases pre <;> cases e
+  | cons op ops ih =>
+    intro P
+    simp only [AdmFrom, ih]
+    constructor
+    · rintro ⟨h1, h2⟩ pre s n p id post e
+      cases pre with
+      | nil =>
+        simp only [List.nil_append, List.cons.injEq] at e
+        obtain ⟨rfl, rfl⟩ := e
+        exact h1
+      | cons o pre' =>
+        simp only [List.cons_append, List.cons.injEq] at e
+        obtain ⟨rfl, rfl⟩ := e
+        exact h2 pre' s n p id post rfl
+    · intro h
+      refine ⟨?_, fun pre s n p id post e => h (op :: pre) s n p id post (by rw [e]; rfl)⟩
+      cases op with
+      | insert s n p id => exact h [] s n p id ops rfl
+      | remove s n => trivial
+      | select => trivial
+
+/-! ### admission: why no `Insert` on a pending key with a changed priority reaches the pool -/
+
+/-- what the application does on its mempool connection (SDK `baseapp` v0.50.13 `runTx`, read,
+    not part of /repo):
+* `checkTx s n urls id ok` — `CheckTx(New)` of a transaction whose first signer is `s` with
+  sequence `n`: the ante chain (`ok` = everything but the sequence check) and
+  `SigVerificationDecorator`'s `sig.Sequence != acc.GetSequence()` against the check state;
+  on success `IncrementSequenceDecorator` bumps the check-state sequence and `runTx` calls
+  `mempool.Insert(ctx, tx)` with `ctx.Priority() = TxFeeSkipper = 42`;
+* `finalizeTx s n` — `FinalizeBlock` executes a transaction of the block: `mempool.Remove(tx)`;
+* `commit c rc` — `Commit` resets the check state to the committed state (account sequences
+  `c`), then CometBFT re-checks the content `rc` of ITS mempool (`CheckTx(Recheck)`, in its
+  order; the flag is the outcome of the rest of the ante chain): a transaction that fails the
+  ante handler is removed from the application pool, one that passes bumps the sequence again;
+* `select` — `PrepareProposal`. -/
+inductive AOp where
+  | checkTx (s : String) (n : Nat) (urls : List String) (id : Nat) (ok : Bool)
+  | finalizeTx (s : String) (n : Nat)
+  | commit (c : String → Nat) (rc : List (String × Nat × Bool))
+  | select
+
+/-- one `CheckTx(Recheck)`: new check-state sequences and the pool operation it causes -/
+def recheckStep (acc : (String → Nat) × List TxOp) (e : String × Nat × Bool) :
+    (String → Nat) × List TxOp :=
+  if e.2.2 = true ∧ e.2.1 = acc.1 e.1 then (upd acc.1 e.1 (e.2.1 + 1), acc.2)
+  else (acc.1, acc.2 ++ [.remove e.1 e.2.1])
+
+/-- the pool operations one application-level event causes, and the check-state sequences after it -/
+def aemit (seq : String → Nat) : AOp → (String → Nat) × List TxOp
+  | .checkTx s n urls id ok =>
+    if ok = true ∧ n = seq s then (upd seq s (n + 1), [.insert s n urls appCtxPriority id]) else (seq, [])
+  | .finalizeTx s n => (seq, [.remove s n])
+  | .commit c rc => rc.foldl recheckStep (c, [])
+  | .select => (seq, [.select])
+
+/-- the history of pool operations an application-level history causes -/
+def acompile (seq : String → Nat) : List AOp → List TxOp
+  | [] => []
+  | op :: rest => (aemit seq op).2 ++ acompile (aemit seq op).1 rest
+
+/-- CometBFT re-checks everything the application pool holds: at every `commit`, each pending
+    transaction occurs in the recheck list.  EXTERNAL ASSUMPTION about the node (`recheck = true`,
+    the default, and CometBFT's mempool ⊇ the application's). -/
+def ACovered (seq : String → Nat) (P : List Tx) : List AOp → Prop
+  | [] => True
+  | op :: rest =>
+    (match op with
+      | .commit _ rc => ∀ t ∈ P, ∃ ok, (t.sender, t.nonce, ok) ∈ rc
+      | _ => True) ∧
+    ACovered (aemit seq op).1 (((aemit seq op).2.map TxOp.toOp).foldl pendingStep P) rest
+
+/-- every pending sequence number is below the check-state sequence of its sender -/
+def Below (seq : String → Nat) (P : List Tx) : Prop := ∀ t ∈ P, t.nonce < seq t.sender
+
+theorem recheck_fold_acc (rc : List (String × Nat × Bool)) : ∀ acc : (String → Nat) × List TxOp,
+    (∀ s, acc.1 s ≤ (rc.foldl recheckStep acc).1 s) ∧
+    (∃ R, (rc.foldl recheckStep acc).2 = acc.2 ++ R ∧
+      (∀ op ∈ R, ∃ s n, op = TxOp.remove s n) ∧
+      ∀ e ∈ rc, e.2.1 < (rc.foldl recheckStep acc).1 e.1 ∨ TxOp.remove e.1 e.2.1 ∈ R) := by
+  induction rc with
+  | nil => intro acc; exact ⟨fun _ => Nat.le_refl _, [], by simp, by simp, by simp⟩
+  | cons e rc ih =>
+    intro acc
+    obtain ⟨m1, R, hR, hrm, hcov⟩ := ih (recheckStep acc e)
+    simp only [List.foldl_cons]
+    by_cases hc : e.2.2 = true ∧ e.2.1 = acc.1 e.1
+    · have hs : recheckStep acc e = (upd acc.1 e.1 (e.2.1 + 1), acc.2) := by
+        simp only [recheckStep, hc, and_self, if_true]
+      rw [hs] at m1 hR hcov ⊢
+      refine ⟨?_, R, hR, hrm, ?_⟩
+      · intro s
+        refine Nat.le_trans ?_ (m1 s)
+        simp only [upd]
+        split
+        · rename_i h; subst h; omega
+        · exact Nat.le_refl _
+      · intro x hx
+        rcases List.mem_cons.mp hx with rfl | hx
+        · left
+          have := m1 x.1
+          simp only [upd, if_true] at this
+          omega
+        · exact hcov x hx
+    · have hs : recheckStep acc e = (acc.1, acc.2 ++ [.remove e.1 e.2.1]) := by
+        simp only [recheckStep, hc, if_false]
+      rw [hs] at m1 hR hcov ⊢
+      refine ⟨m1, TxOp.remove e.1 e.2.1 :: R, by rw [hR]; simp, ?_, ?_⟩
+      · intro op hop
+        rcases List.mem_cons.mp hop with rfl | hop
+        · exact ⟨_, _, rfl⟩
+        · exact hrm op hop
+      · intro x hx
+        rcases List.mem_cons.mp hx with rfl | hx
+        · exact Or.inr List.mem_cons_self
+        · rcases hcov x hx with h | h
+          · exact Or.inl h
+          · exact Or.inr (List.mem_cons_of_mem _ h)
+
+/-- folding a list of removes: what remains was there before and is none of the removed keys -/
+theorem fold_removes (R : List TxOp) (hR : ∀ op ∈ R, ∃ s n, op = TxOp.remove s n) :
+    ∀ P : List Tx, ∀ t ∈ (R.map TxOp.toOp).foldl pendingStep P,
+      t ∈ P ∧ TxOp.remove t.sender t.nonce ∉ R := by
+  induction R with
+  | nil => intro P t ht; exact ⟨ht, by simp⟩
+  | cons op R ih =>
+    intro P t ht
+    obtain ⟨s, n, rfl⟩ := hR _ List.mem_cons_self
+    simp only [List.map_cons, List.foldl_cons, TxOp.toOp, pendingStep] at ht
+    obtain ⟨h1, h2⟩ := ih (fun o ho => hR o (List.mem_cons_of_mem _ ho)) _ t ht
+    have hf := List.mem_filter.mp h1
+    refine ⟨hf.1, ?_⟩
+    intro hm
+    rcases List.mem_cons.mp hm with e | hm
+    · simp only [TxOp.remove.injEq] at e
+      have := hf.2
+      simp [e.1, e.2] at this
+    · exact h2 hm
+
+theorem freshFrom_removes (R : List TxOp) (hR : ∀ op ∈ R, ∃ s n, op = TxOp.remove s n) :
+    ∀ P : List Tx, FreshFrom P (R.map TxOp.toOp) := by
+  induction R with
+  | nil => intro _; trivial
+  | cons op R ih =>
+    intro P
+    obtain ⟨s, n, rfl⟩ := hR _ List.mem_cons_self
+    exact ⟨trivial, ih (fun o ho => hR o (List.mem_cons_of_mem _ ho)) _⟩
+
+/-- one application-level event keeps `Below`, and what it emits is fresh -/
+theorem aemit_step (seq : String → Nat) (P : List Tx) (op : AOp) (hb : Below seq P)
+    (hcov : match op with
+      | .commit _ rc => ∀ t ∈ P, ∃ ok, (t.sender, t.nonce, ok) ∈ rc
+      | _ => True) :
+    FreshFrom P ((aemit seq op).2.map TxOp.toOp) ∧
+    Below (aemit seq op).1 (((aemit seq op).2.map TxOp.toOp).foldl pendingStep P) := by
+  cases op with
+  | checkTx s n urls id ok =>
+    by_cases hc : ok = true ∧ n = seq s
+    · have he : aemit seq (.checkTx s n urls id ok)
+          = (upd seq s (n + 1), [.insert s n urls appCtxPriority id]) := by
+        simp only [aemit, hc, and_self, if_true]
+      rw [he]
+      refine ⟨⟨?_, trivial⟩, ?_⟩
+      · intro t ht hk
+        have := hb t ht
+        rw [hk.1, hk.2, hc.2] at this
+        omega
+      · intro t ht
+        simp only [List.map_cons, List.map_nil, List.foldl_cons, List.foldl_nil, TxOp.toOp,
+          pendingStep] at ht
+        rcases List.mem_cons.mp ht with rfl | ht
+        · simp [upd]
+        · have := hb t (List.mem_filter.mp ht).1
+          simp only [upd]
+          split
+          · rename_i h; rw [h, ← hc.2] at this; omega
+          · exact this
+    · have he : aemit seq (.checkTx s n urls id ok) = (seq, []) := by
+        simp only [aemit, hc, if_false]
+      rw [he]
+      exact ⟨trivial, hb⟩
+  | finalizeTx s n =>
+    refine ⟨⟨trivial, trivial⟩, ?_⟩
+    intro t ht
+    simp only [aemit, List.map_cons, List.map_nil, List.foldl_cons, List.foldl_nil, TxOp.toOp,
+      pendingStep] at ht
+    exact hb t (List.mem_filter.mp ht).1
+  | commit c rc =>
+    obtain ⟨_, R, hR, hrm, hcv⟩ := recheck_fold_acc rc (c, [])
+    simp only [List.nil_append] at hR
+    simp only [aemit]
+    rw [hR]
+    refine ⟨freshFrom_removes R hrm P, ?_⟩
+    intro t ht
+    obtain ⟨htP, hnr⟩ := fold_removes R hrm P t ht
+    obtain ⟨ok, hin⟩ := hcov t htP
+    rcases hcv _ hin with h | h
+    · exact h
+    · exact absurd h hnr
+  | select => exact ⟨⟨trivial, trivial⟩, hb⟩
+
+theorem acompile_freshFrom (aops : List AOp) : ∀ (seq : String → Nat) (P : List Tx),
+    Below seq P → ACovered seq P aops → FreshFrom P ((acompile seq aops).map TxOp.toOp) := by
+  induction aops with
+  | nil => intro _ _ _ _; trivial
+  | cons op rest ih =>
+    intro seq P hb hc
+    obtain ⟨h1, h2⟩ := aemit_step seq P op hb hc.1
+    simp only [acompile, List.map_append]
+    rw [freshFrom_append]
+    exact ⟨h1, ih _ _ h2 hc.2⟩
+
+theorem acompile_ctx (aops : List AOp) : ∀ (seq : String → Nat) s n urls c id,
+    TxOp.insert s n urls c id ∈ acompile seq aops → c = appCtxPriority := by
+  induction aops with
+  | nil => intro _ _ _ _ _ _ h; cases h
+  | cons op rest ih =>
+    intro seq s n urls c id h
+    simp only [acompile] at h
+    rcases List.mem_append.mp h with h | h
+    · cases op with
+      | checkTx s' n' urls' id' ok =>
+        simp only [aemit] at h
+        split at h
+        · simp only [List.mem_singleton, TxOp.insert.injEq] at h
+          exact h.2.2.2.1
+        · cases h
+      | finalizeTx s' n' => simp [aemit] at h
+      | commit c' rc =>
+        obtain ⟨_, R, hR, hrm, _⟩ := recheck_fold_acc rc (c', [])
+        simp only [List.nil_append] at hR
+        simp only [aemit] at h
+        rw [hR] at h
+        obtain ⟨_, _, e⟩ := hrm _ h
+        cases e
+      | select => simp [aemit] at h
+    · exact ih _ s n urls c id h
+
+/-! ### the iterator state between two `Next()` calls -/
+
+/-- invariant of a live iterator standing inside the run of a sender (`R` = `priorityNode` and
+    the elements behind it): as `LI`, but the sender of the current element may already have
+    passed its own element -/
+structure LIm (scores : String → Nat → Option Score) (R : List PNode) (rem : String → List Tx) : Prop where
+  sorted : Sorted R
+  own : ∀ s, ∀ e ∈ rem s, (∃ k ∈ R, Own scores k s e) ∨ Dom scores s e R
+  head : ∀ s e es, rem s = e :: es → R.head?.map (·.sender) ≠ some s → ∃ k ∈ R, Own scores k s e
+  pge : ∀ s, ∀ e ∈ rem s, minInt64 ≤ e.prio
+  snd : ∀ s, ∀ e ∈ rem s, e.sender = s
+
+theorem LIm_of_LI {scores : String → Nat → Option Score} {R : List PNode} {rem : String → List Tx}
+    (h : LI scores R rem) : LIm scores R rem :=
+  ⟨h.sorted, h.own, fun s e es hr _ => h.head s e es hr, h.pge, h.snd⟩
+
+/-- leaving the element `m` (its sender has nothing left, or is deferred): `LI` for the rest -/
+theorem LI_of_LIm_leave (scores : String → Nat → Option Score) (m : PNode) (rest : List PNode)
+    (rem : String → List Tx) (h : LIm scores (m :: rest) rem)
+    (hleave : rem m.sender = [] ∨ ∃ e es, rem m.sender = e :: es ∧ passes scores rest.head? m.sender e = .stop) :
+    LI scores rest rem := by
+  constructor
+  · exact (List.pairwise_cons.mp h.sorted).2
+  · intro s e he; exact own_step scores m rest s e h.sorted (h.own s e he)
+  · intro s e es hr
+    have hmem : e ∈ rem s := by rw [hr]; simp
+    by_cases hs : s = m.sender
+    · subst hs
+      rcases hleave with hn | ⟨e', es', hr', hp⟩
+      · rw [hn] at hr; cases hr
+      · rw [hr'] at hr
+        simp only [List.cons.injEq] at hr
+        obtain ⟨rfl, rfl⟩ := hr
+        rcases own_step scores m rest m.sender e' h.sorted (h.own _ e' hmem) with hk | hd
+        · exact hk
+        · exact absurd hp (passes_of_dom scores m.sender e' rest hd (h.pge _ e' hmem))
+    · obtain ⟨k, hk, ho⟩ := h.head s e es hr (by simp only [List.head?_cons, Option.map_some]; intro e'; exact hs (Option.some.inj e').symm)
+      rcases List.mem_cons.mp hk with hk | hk
+      · subst hk; exact absurd ho.1.symm hs
+      · exact ⟨k, hk, ho⟩
+  · exact h.pge
+  · exact h.snd
+
+/-- "both next transactions are available", on the iterator state: the iterator stands on
+    `it.cur`; `u` is the first not yet yielded transaction of another sender -/
+def Avail (it : Iter) : Prop :=
+  ∀ z, z ≠ it.cur.sender → ∀ u us, it.rem z = u :: us → u.prio ≤ it.cur.prio
+
+theorem advance_spec_m (scores : String → Nat → Option Score) (m : PNode) (rest : List PNode)
+    (ih : ∀ rem, LI scores rest rem → ∀ it, advance scores rest rem = .at it →
+      LIm scores it.nodes it.rem ∧ Avail it ∧ it.nodes ≠ []) :
+    ∀ (l : List Tx) (rem : String → List Tx), rem m.sender = l → LIm scores (m :: rest) rem →
+      ∀ it, advance scores (m :: rest) rem = .at it →
+        LIm scores it.nodes it.rem ∧ Avail it ∧ it.nodes ≠ [] := by
+  intro l rem hl h it hit
+  cases l with
+  | nil =>
+    have : advance scores (m :: rest) rem = advance scores rest rem := by simp only [advance, hl]
+    rw [this] at hit
+    exact ih rem (LI_of_LIm_leave scores m rest rem h (Or.inl hl)) it hit
+  | cons e es =>
+    cases hp : passes scores rest.head? m.sender e with
+    | stop =>
+      have : advance scores (m :: rest) rem = advance scores rest rem := by simp only [advance, hl, hp]
+      rw [this] at hit
+      exact ih rem (LI_of_LIm_leave scores m rest rem h (Or.inr ⟨e, es, hl, hp⟩)) it hit
+    | panic =>
+      have : advance scores (m :: rest) rem = .panic := by simp only [advance, hl, hp]
+      rw [this] at hit; cases hit
+    | pass =>
+      have : advance scores (m :: rest) rem = .at ⟨m :: rest, upd rem m.sender es, e⟩ := by
+        simp only [advance, hl, hp]
+      rw [this] at hit
+      cases hit
+      have hsub : ∀ s, ∀ x ∈ upd rem m.sender es s, x ∈ rem s := by
+        intro s x hx
+        simp only [upd] at hx
+        split at hx
+        · rename_i hs; subst hs; rw [hl]; exact List.mem_cons_of_mem _ hx
+        · exact hx
+      have hes : e.sender = m.sender := h.snd _ e (by rw [hl]; simp)
+      refine ⟨⟨h.sorted, fun s x hx => h.own s x (hsub s x hx), ?_, fun s x hx => h.pge s x (hsub s x hx),
+        fun s x hx => h.snd s x (hsub s x hx)⟩, ?_, by simp⟩
+      · intro s x xs hr hne
+        have hs : ¬ s = m.sender := by
+          intro e'; apply hne; simp [e']
+        have hr' : rem s = x :: xs := by simpa only [upd, hs, if_false] using hr
+        exact h.head s x xs hr' hne
+      · intro z hz u us hr
+        show u.prio ≤ e.prio
+        simp only at hz hr
+        rw [hes] at hz
+        have hr' : rem z = u :: us := by simpa only [upd, hz, if_false] using hr
+        obtain ⟨k, hk, ho⟩ := h.head z u us hr' (by
+          simp only [List.head?_cons, Option.map_some]; intro e'; exact hz (Option.some.inj e').symm)
+        have hge := passes_pass_ge scores _ _ e hp
+        rcases List.mem_cons.mp hk with hk | hk
+        · subst hk; exact absurd ho.1.symm hz
+        · rw [← ho.2.2.1]
+          cases rest with
+          | nil => cases hk
+          | cons m' rest' =>
+            simp only [List.head?_cons, nextPrio] at hge
+            rcases List.mem_cons.mp hk with hk | hk
+            · subst hk; exact hge
+            · have := keyCmp_gt_weak ((List.pairwise_cons.mp (List.pairwise_cons.mp h.sorted).2).1 k hk)
+              omega
+
+theorem advance_spec (scores : String → Nat → Option Score) (R : List PNode) :
+    ∀ rem, LI scores R rem → ∀ it, advance scores R rem = .at it →
+      LIm scores it.nodes it.rem ∧ Avail it ∧ it.nodes ≠ [] := by
+  induction R with
+  | nil => intro rem _ it hit; simp [advance] at hit
+  | cons m rest ih =>
+    intro rem h it hit
+    exact advance_spec_m scores m rest ih (rem m.sender) rem rfl (LIm_of_LI h) it hit
+
+theorem iter_next_spec (scores : String → Nat → Option Score) (it : Iter)
+    (h : LIm scores it.nodes it.rem) (hne : it.nodes ≠ []) :
+    ∀ it', it.next scores = .at it' → LIm scores it'.nodes it'.rem ∧ Avail it' ∧ it'.nodes ≠ [] := by
+  intro it' hit
+  unfold Iter.next at hit
+  cases hn : it.nodes with
+  | nil => exact absurd hn hne
+  | cons m rest =>
+    rw [hn] at hit h
+    exact advance_spec_m scores m rest (advance_spec scores rest) (it.rem m.sender) it.rem rfl h it' hit
+
+theorem runIter_state (scores : String → Nat → Option Score) (k : Nat) :
+    ∀ it, LIm scores it.nodes it.rem → Avail it → it.nodes ≠ [] →
+      ∀ it', (runIter scores k (.at it)).2 = .at it' →
+        LIm scores it'.nodes it'.rem ∧ Avail it' ∧ it'.nodes ≠ [] := by
+  induction k with
+  | zero => intro it h ha hne it' hr; simp only [runIter] at hr; cases hr; exact ⟨h, ha, hne⟩
+  | succ k ih =>
+    intro it h ha hne it' hr
+    simp only [runIter] at hr
+    cases hn : it.next scores with
+    | done => rw [hn, runIter_done] at hr; cases hr
+    | panic => rw [hn, runIter_panic] at hr; cases hr
+    | «at» it2 =>
+      rw [hn] at hr
+      obtain ⟨h2, ha2, hne2⟩ := iter_next_spec scores it h hne it2 hn
+      exact ih it2 h2 ha2 hne2 it' hr
+
+/-- what is left for a sender in a live iterator after `selectN k` is a suffix of its sender index -/
+theorem selectN_state {mp : Pool} {P : List Tx} (h : Inv mp P) (hge : ∀ t ∈ P, minInt64 ≤ t.prio)
+    (k : Nat) (it : Iter) (hit : (mp.selectN k).2.2 = .at it) :
+    LIm mp.select.1.scores it.nodes it.rem ∧ Avail it := by
+  have hi := inv_select h
+  have hli := LI_of_inv hi hge
+  unfold Pool.selectN Pool.selectStart at hit
+  split at hit
+  · simp only [runIter_done] at hit; cases hit
+  · rename_i hne
+    have hsel : mp.select.1 = mp.reorder := by
+      unfold Pool.select; rw [if_neg hne]
+    rw [hsel] at hli ⊢
+    simp only at hit
+    cases ha : advance mp.reorder.scores mp.reorder.pidx mp.reorder.sidx with
+    | done => rw [ha, runIter_done] at hit; cases hit
+    | panic => rw [ha, runIter_panic] at hit; cases hit
+    | «at» it0 =>
+      rw [ha] at hit
+      obtain ⟨h0, a0, n0⟩ := advance_spec _ _ _ hli it0 ha
+      have := runIter_state _ k it0 h0 a0 n0 it hit
+      exact ⟨this.1, this.2.1⟩
+
+/-- `senderCursors` of a live iterator: what is left for sender `s` (for the examples) -/
+def IterResult.remOf : IterResult → String → List Tx
+  | .at it, s => it.rem s
+  | _, _ => []
+
+theorem advance_rem (scores : String → Nat → Option Score) (R : List PNode) :
+    ∀ (rem : String → List Tx) (it : Iter), advance scores R rem = .at it →
+      (∀ s, it.rem s <:+ rem s) ∧ ∃ s, it.cur ∈ rem s := by
+  induction R with
+  | nil => intro rem it h; simp [advance] at h
+  | cons m rest ih =>
+    intro rem it h
+    cases hl : rem m.sender with
+    | nil =>
+      have : advance scores (m :: rest) rem = advance scores rest rem := by simp only [advance, hl]
+      rw [this] at h; exact ih rem it h
+    | cons e es =>
+      cases hp : passes scores rest.head? m.sender e with
+      | stop =>
+        have : advance scores (m :: rest) rem = advance scores rest rem := by simp only [advance, hl, hp]
+        rw [this] at h; exact ih rem it h
+      | panic =>
+        have : advance scores (m :: rest) rem = .panic := by simp only [advance, hl, hp]
+        rw [this] at h; cases h
+      | pass =>
+        have : advance scores (m :: rest) rem = .at ⟨m :: rest, upd rem m.sender es, e⟩ := by
+          simp only [advance, hl, hp]
+        rw [this] at h
+        cases h
+        refine ⟨?_, m.sender, by rw [hl]; simp⟩
+        intro s
+        simp only [upd]
+        split
+        · rename_i hs; subst hs; rw [hl]; exact List.suffix_cons e es
+        · exact List.suffix_refl _
+
+theorem runIter_rem (scores : String → Nat → Option Score) (base : String → List Tx) (k : Nat) :
+    ∀ it, (∀ s, it.rem s <:+ base s) → (∃ s, it.cur ∈ base s) →
+      ∀ it', (runIter scores k (.at it)).2 = .at it' →
+        (∀ s, it'.rem s <:+ base s) ∧ ∃ s, it'.cur ∈ base s := by
+  induction k with
+  | zero => intro it h1 h2 it' hr; simp only [runIter] at hr; cases hr; exact ⟨h1, h2⟩
+  | succ k ih =>
+    intro it h1 h2 it' hr
+    simp only [runIter] at hr
+    cases hn : it.next scores with
+    | done => rw [hn, runIter_done] at hr; cases hr
+    | panic => rw [hn, runIter_panic] at hr; cases hr
+    | «at» it2 =>
+      rw [hn] at hr
+      obtain ⟨a1, s0, a2⟩ := advance_rem scores it.nodes it.rem it2 hn
+      refine ih it2 (fun s => List.IsSuffix.trans (a1 s) (h1 s)) ⟨s0, ?_⟩ it' hr
+      exact (h1 s0).subset a2
+
+theorem selectN_rem (mp : Pool) (k : Nat) (it : Iter) (hit : (mp.selectN k).2.2 = .at it) :
+    (∀ s, it.rem s <:+ mp.select.1.sidx s) ∧ ∃ s, it.cur ∈ mp.select.1.sidx s := by
+  unfold Pool.selectN Pool.selectStart at hit
+  split at hit
+  · simp only [runIter_done] at hit; cases hit
+  · rename_i hne
+    have hsel : mp.select.1 = mp.reorder := by
+      unfold Pool.select; rw [if_neg hne]
+    rw [hsel]
+    simp only at hit
+    cases ha : advance mp.reorder.scores mp.reorder.pidx mp.reorder.sidx with
+    | done => rw [ha, runIter_done] at hit; cases hit
+    | panic => rw [ha, runIter_panic] at hit; cases hit
+    | «at» it0 =>
+      rw [ha] at hit
+      obtain ⟨a1, a2⟩ := advance_rem _ _ _ it0 ha
+      exact runIter_rem _ _ k it0 a1 a2 it hit
+
+/-! ### what holds for EVERY history: the priority index and `scores` describe the pending set -/
+
+/-- the part of `Inv` that does not mention the sender indices and `priorityCounts`; it survives a
+    priority-changing replacement -/
+structure CInv (mp : Pool) (P : List Tx) : Prop where
+  keys_nodup : (P.map Tx.skey).Nodup
+  psorted : Sorted mp.pidx
+  pkeys : (mp.pidx.map PNode.skey).Nodup
+  pmem : ∀ t, t ∈ mp.pidx.map PNode.tx ↔ t ∈ P
+  score_node : ∀ k ∈ mp.pidx, mp.scores k.sender k.nonce = some ⟨k.prio, k.weight⟩
+  node_score : ∀ s n sc, mp.scores s n = some sc → ∃ k ∈ mp.pidx, k.sender = s ∧ k.nonce = n
+
+theorem CInv.congr {mp mp' : Pool} {P : List Tx} (h : CInv mp P) (e1 : mp'.pidx = mp.pidx)
+    (e2 : mp'.scores = mp.scores) : CInv mp' P := by
+  constructor
+  · exact h.keys_nodup
+  · rw [e1]; exact h.psorted
+  · rw [e1]; exact h.pkeys
+  · rw [e1]; exact h.pmem
+  · rw [e1, e2]; exact h.score_node
+  · rw [e1, e2]; exact h.node_score
+
+theorem CInv.ptx_nodup {mp : Pool} {P : List Tx} (h : CInv mp P) : (mp.pidx.map PNode.tx).Nodup := by
+  have : (mp.pidx.map PNode.tx).map Tx.skey = mp.pidx.map PNode.skey := by
+    rw [List.map_map]; rfl
+  exact nodup_of_map _ (this ▸ h.pkeys)
+
+theorem CInv.pperm {mp : Pool} {P : List Tx} (h : CInv mp P) : (mp.pidx.map PNode.tx).Perm P :=
+  (List.perm_ext_iff_of_nodup h.ptx_nodup (nodup_of_map _ h.keys_nodup)).mpr h.pmem
+
+theorem CInv.node_mem {mp : Pool} {P : List Tx} (h : CInv mp P) {k : PNode} (hk : k ∈ mp.pidx) :
+    k.tx ∈ P := (h.pmem _).mp (List.mem_map.mpr ⟨k, hk, rfl⟩)
+
+theorem CInv.node_of {mp : Pool} {P : List Tx} (h : CInv mp P) {t : Tx} (ht : t ∈ P) :
+    ∃ k ∈ mp.pidx, k.tx = t := by
+  rcases List.mem_map.mp ((h.pmem t).mpr ht) with ⟨k, hk, e⟩
+  exact ⟨k, hk, e⟩
+
+theorem cinv_empty : CInv Pool.empty [] := by
+  constructor <;> simp [Pool.empty, Sorted]
+
+theorem cinv_insert_fresh {mp : Pool} {P : List Tx} (h : CInv mp P) (s : String) (n : Nat) (p : Int) (id : Nat)
+    (hfresh : ∀ t ∈ P, ¬ (t.sender = s ∧ t.nonce = n)) :
+    CInv (mp.insert s n p id) (pendingStep P (.insert s n p id)) := by
+  have hP' : pendingStep P (.insert s n p id) = ⟨s, n, p, id⟩ :: P := by
+    simp only [pendingStep]; rw [filter_key_fresh P s n hfresh]
+  have hnokey : ∀ x ∈ mp.pidx, ¬ (x.sender = s ∧ x.nonce = n) := by
+    intro x hx hk
+    exact hfresh x.tx (h.node_mem hx) hk
+  have hnone : mp.scores s n = none := by
+    cases hsc : mp.scores s n with
+    | none => rfl
+    | some sc =>
+      obtain ⟨k, hk, h1, h2⟩ := h.node_score s n sc hsc
+      exact absurd ⟨h1, h2⟩ (hnokey k hk)
+  have hneq : ∀ x ∈ mp.pidx, keyCmp ⟨p, 0, s, n, id⟩ x ≠ .eq := by
+    intro x hx he
+    have := keyCmp_eq_iff.mp he
+    exact hnokey x hx ⟨this.2.2.1.symm, this.2.2.2.symm⟩
+  have hperm := pset_perm ⟨p, 0, s, n, id⟩ mp.pidx hneq
+  have hpi : (mp.insert s n p id).pidx = pset ⟨p, 0, s, n, id⟩ mp.pidx := by
+    simp only [Pool.insert, hnone]
+  have hsi : (mp.insert s n p id).scores = upd2 mp.scores s n (some ⟨p, 0⟩) := by
+    simp only [Pool.insert]
+  rw [hP']
+  constructor
+  · rw [List.map_cons, List.nodup_cons]
+    refine ⟨?_, h.keys_nodup⟩
+    intro hm
+    rcases List.mem_map.mp hm with ⟨t, ht, e⟩
+    simp only [Tx.skey, Prod.mk.injEq] at e
+    exact hfresh t ht e
+  · rw [hpi]; exact pset_sorted _ _ h.psorted hneq
+  · rw [hpi]
+    refine ((hperm.map PNode.skey).nodup_iff).mpr ?_
+    rw [List.map_cons, List.nodup_cons]
+    refine ⟨?_, h.pkeys⟩
+    intro hm
+    rcases List.mem_map.mp hm with ⟨x, hx, e⟩
+    simp only [PNode.skey, Prod.mk.injEq] at e
+    exact hnokey x hx e
+  · intro t
+    rw [hpi, (hperm.map PNode.tx).mem_iff, List.map_cons, List.mem_cons, List.mem_cons, h.pmem]
+    rfl
+  · intro k hk
+    rw [hpi] at hk
+    rw [hsi]
+    rcases List.mem_cons.mp (hperm.mem_iff.mp hk) with hk | hk
+    · subst hk; simp [upd2]
+    · have := hnokey k hk
+      simp only [upd2, this, if_false]
+      exact h.score_node k hk
+  · intro s' n' sc hsc
+    rw [hsi] at hsc
+    rw [hpi]
+    simp only [upd2] at hsc
+    split at hsc
+    · rename_i hc
+      exact ⟨⟨p, 0, s, n, id⟩, hperm.mem_iff.mpr (List.mem_cons_self), hc.1.symm, hc.2.symm⟩
+    · obtain ⟨k, hk, hk'⟩ := h.node_score s' n' sc hsc
+      exact ⟨k, hperm.mem_iff.mpr (List.mem_cons_of_mem _ hk), hk'⟩
+
+theorem cinv_remove {mp : Pool} {P : List Tx} (h : CInv mp P) (s : String) (n : Nat) :
+    CInv (mp.remove s n).1 (pendingStep P (.remove s n)) := by
+  cases hsc : mp.scores s n with
+  | none =>
+    have hfresh : ∀ t ∈ P, ¬ (t.sender = s ∧ t.nonce = n) := by
+      intro t ht hk
+      obtain ⟨k, hk1, hk2⟩ := h.node_of ht
+      have := h.score_node k hk1
+      have e1 : k.sender = s := by rw [← hk.1, ← hk2]; rfl
+      have e2 : k.nonce = n := by rw [← hk.2, ← hk2]; rfl
+      rw [e1, e2, hsc] at this
+      cases this
+    have hP' : pendingStep P (.remove s n) = P := by
+      simp only [pendingStep]; exact filter_key_fresh P s n hfresh
+    have hrm : (mp.remove s n).1 = mp := by simp only [Pool.remove, hsc]
+    rw [hP', hrm]; exact h
+  | some sc =>
+    obtain ⟨k, hk, h1, h2⟩ := h.node_score s n sc hsc
+    subst h1 h2
+    have hsc' := h.score_node k hk
+    rw [hsc] at hsc'
+    have hsce : sc = ⟨k.prio, k.weight⟩ := Option.some.inj hsc'
+    subst hsce
+    have hpi : (mp.remove k.sender k.nonce).1.pidx = perase ⟨k.prio, k.weight, k.sender, k.nonce, 0⟩ mp.pidx := by
+      simp only [Pool.remove, hsc]
+    have hsi : (mp.remove k.sender k.nonce).1.scores = upd2 mp.scores k.sender k.nonce none := by
+      simp only [Pool.remove, hsc]
+    have hke : keyCmp ⟨k.prio, k.weight, k.sender, k.nonce, 0⟩ k = .eq :=
+      keyCmp_eq_iff.mpr ⟨rfl, rfl, rfl, rfl⟩
+    have hperm := perase_perm ⟨k.prio, k.weight, k.sender, k.nonce, 0⟩ k mp.pidx h.psorted hk hke
+    have ht0 : k.tx ∈ P := h.node_mem hk
+    have hPperm := perm_filter_key P k.tx h.keys_nodup ht0
+    have hP' : pendingStep P (.remove k.sender k.nonce) =
+        P.filter (fun t => !(t.sender == k.tx.sender && t.nonce == k.tx.nonce)) := rfl
+    have hknot : k.skey ∉ (perase ⟨k.prio, k.weight, k.sender, k.nonce, 0⟩ mp.pidx).map PNode.skey := by
+      have := ((hperm.map PNode.skey).nodup_iff).mp h.pkeys
+      rw [List.map_cons, List.nodup_cons] at this
+      exact this.1
+    rw [hP']
+    constructor
+    · exact List.Nodup.sublist (List.Sublist.map _ List.filter_sublist) h.keys_nodup
+    · rw [hpi]; exact perase_sorted _ _ h.psorted
+    · rw [hpi]; exact List.Nodup.sublist (List.Sublist.map _ (perase_sublist _ _)) h.pkeys
+    · intro t
+      rw [hpi]
+      have e1 := (hperm.map PNode.tx)
+      rw [List.map_cons] at e1
+      have e2 := (e1.symm.trans (h.pperm.trans hPperm)).cons_inv
+      exact e2.mem_iff
+    · intro k' hk'
+      rw [hpi] at hk'
+      rw [hsi]
+      have hk'0 : k' ∈ mp.pidx := (perase_sublist _ _).subset hk'
+      have hne : ¬ (k'.sender = k.sender ∧ k'.nonce = k.nonce) := by
+        intro e
+        apply hknot
+        exact List.mem_map.mpr ⟨k', hk', by simp [PNode.skey, e.1, e.2]⟩
+      simp only [upd2, hne, if_false]
+      exact h.score_node k' hk'0
+    · intro s' n' sc' hsc'
+      rw [hsi] at hsc'
+      rw [hpi]
+      simp only [upd2] at hsc'
+      split at hsc'
+      · cases hsc'
+      · rename_i hc
+        obtain ⟨k', hk', e1, e2⟩ := h.node_score s' n' sc' hsc'
+        rcases List.mem_cons.mp (hperm.mem_iff.mp hk') with hkk | hkk
+        · subst hkk; exact absurd ⟨e1.symm, e2.symm⟩ hc
+        · exact ⟨k', hkk, e1, e2⟩
+
+/-- `Insert` on a pending key — with ANY priority — changes the priority index and `scores` like
+    `Remove` followed by `Insert` -/
+theorem insert_pidx_scores (mp : Pool) (s : String) (n : Nat) (p : Int) (id : Nat) (sc : Score)
+    (hsc : mp.scores s n = some sc) :
+    (mp.insert s n p id).pidx = ((mp.remove s n).1.insert s n p id).pidx ∧
+    (mp.insert s n p id).scores = ((mp.remove s n).1.insert s n p id).scores := by
+  have hnone : upd2 mp.scores s n none s n = none := by simp [upd2]
+  simp only [Pool.insert, Pool.remove, hsc, hnone, upd2_upd2, and_self]
+
+theorem cinv_insert {mp : Pool} {P : List Tx} (h : CInv mp P) (s : String) (n : Nat) (p : Int) (id : Nat) :
+    CInv (mp.insert s n p id) (pendingStep P (.insert s n p id)) := by
+  cases hsc : mp.scores s n with
+  | none =>
+    apply cinv_insert_fresh h
+    intro t ht hk
+    obtain ⟨k, hk1, hk2⟩ := h.node_of ht
+    have := h.score_node k hk1
+    have e1 : k.sender = s := by rw [← hk.1, ← hk2]; rfl
+    have e2 : k.nonce = n := by rw [← hk.2, ← hk2]; rfl
+    rw [e1, e2, hsc] at this
+    cases this
+  | some sc =>
+    have h1 := cinv_remove h s n
+    have hfresh : ∀ t ∈ pendingStep P (.remove s n), ¬ (t.sender = s ∧ t.nonce = n) := by
+      intro t ht hk
+      simp only [pendingStep, List.mem_filter] at ht
+      simp [hk.1, hk.2] at ht
+    have h2 := cinv_insert_fresh h1 s n p id hfresh
+    have hP : pendingStep (pendingStep P (.remove s n)) (.insert s n p id)
+        = pendingStep P (.insert s n p id) := by
+      simp only [pendingStep, List.filter_filter, Bool.and_self]
+    rw [hP] at h2
+    obtain ⟨e1, e2⟩ := insert_pidx_scores mp s n p id sc hsc
+    exact h2.congr e1 e2
+
+theorem cinv_reweigh {mp : Pool} {P : List Tx} (h : CInv mp P) (d : PNode) (w : Int) (hd : d ∈ mp.pidx) :
+    CInv (mp.reweigh (d, { d with weight := w })) P ∧
+    (∀ d' ∈ mp.pidx, d'.skey ≠ d.skey → d' ∈ (mp.reweigh (d, { d with weight := w })).pidx) := by
+  have hperm1 := perase_perm d d mp.pidx h.psorted hd (keyCmp_self d)
+  have hknot : d.skey ∉ (perase d mp.pidx).map PNode.skey := by
+    have := ((hperm1.map PNode.skey).nodup_iff).mp h.pkeys
+    rw [List.map_cons, List.nodup_cons] at this
+    exact this.1
+  have hnoeq : ∀ x ∈ perase d mp.pidx, keyCmp { d with weight := w } x ≠ .eq := by
+    intro x hx he
+    have e := keyCmp_eq_iff.mp he
+    apply hknot
+    exact List.mem_map.mpr ⟨x, hx, by simp only [PNode.skey]; rw [← e.2.2.1, ← e.2.2.2]⟩
+  have hperm2 := pset_perm { d with weight := w } (perase d mp.pidx) hnoeq
+  have hrw : mp.reweigh (d, { d with weight := w }) =
+      { mp with
+        pidx := pset { d with weight := w } (perase d mp.pidx)
+        scores := upd2 mp.scores d.sender d.nonce (some ⟨d.prio, w⟩) } := rfl
+  rw [hrw]
+  refine ⟨?_, ?_⟩
+  · constructor
+    · exact h.keys_nodup
+    · exact pset_sorted _ _ (perase_sorted _ _ h.psorted) hnoeq
+    · have e : (pset { d with weight := w } (perase d mp.pidx)).map PNode.skey |>.Perm
+          (mp.pidx.map PNode.skey) :=
+        (hperm2.map PNode.skey).trans (hperm1.map PNode.skey).symm
+      exact (e.nodup_iff).mpr h.pkeys
+    · intro t
+      have e : (pset { d with weight := w } (perase d mp.pidx)).map PNode.tx |>.Perm
+          (mp.pidx.map PNode.tx) :=
+        (hperm2.map PNode.tx).trans (hperm1.map PNode.tx).symm
+      rw [e.mem_iff]; exact h.pmem t
+    · intro k hk
+      rcases List.mem_cons.mp (hperm2.mem_iff.mp hk) with hk | hk
+      · subst hk; simp [upd2]
+      · have hk0 : k ∈ mp.pidx := (perase_sublist _ _).subset hk
+        have hne : ¬ (k.sender = d.sender ∧ k.nonce = d.nonce) := by
+          intro e
+          apply hknot
+          exact List.mem_map.mpr ⟨k, hk, by simp [PNode.skey, e.1, e.2]⟩
+        simp only [upd2, hne, if_false]
+        exact h.score_node k hk0
+    · intro s' n' sc hsc
+      simp only [upd2] at hsc
+      split at hsc
+      · rename_i hc
+        exact ⟨{ d with weight := w }, hperm2.mem_iff.mpr List.mem_cons_self, hc.1.symm, hc.2.symm⟩
+      · rename_i hc
+        obtain ⟨k, hk, e1, e2⟩ := h.node_score s' n' sc hsc
+        rcases List.mem_cons.mp (hperm1.mem_iff.mp hk) with hkk | hkk
+        · subst hkk; exact absurd ⟨e1.symm, e2.symm⟩ hc
+        · exact ⟨k, hperm2.mem_iff.mpr (List.mem_cons_of_mem _ hkk), e1, e2⟩
+  · intro d' hd' hne
+    rcases List.mem_cons.mp (hperm1.mem_iff.mp hd') with e | e
+    · subst e; exact absurd rfl hne
+    · exact hperm2.mem_iff.mpr (List.mem_cons_of_mem _ e)
+
+theorem cinv_reweigh_fold {P : List Tx} (todo : List (PNode × PNode)) :
+    ∀ mp : Pool, CInv mp P →
+      (∀ di ∈ todo, di.1 ∈ mp.pidx ∧ ∃ w, di.2 = { di.1 with weight := w }) →
+      (todo.map (fun di => di.1.skey)).Nodup →
+      CInv (todo.foldl Pool.reweigh mp) P := by
+  induction todo with
+  | nil => intro mp h _ _; exact h
+  | cons di rest ih =>
+    intro mp h hmem hnd
+    rw [List.map_cons, List.nodup_cons] at hnd
+    obtain ⟨hd, w, hw⟩ := hmem di (by simp)
+    have hdi : di = (di.1, { di.1 with weight := w }) := by
+      cases di with
+      | mk a b => simp only at hw ⊢; rw [hw]
+    have := cinv_reweigh h di.1 w hd
+    rw [← hdi] at this
+    rw [List.foldl_cons]
+    apply ih _ this.1
+    · intro di' hdi'
+      obtain ⟨hd', hw'⟩ := hmem di' (by simp [hdi'])
+      refine ⟨this.2 _ hd' ?_, hw'⟩
+      intro e
+      apply hnd.1
+      exact List.mem_map.mpr ⟨di', hdi', e⟩
+    · exact hnd.2
+
+theorem cinv_select {mp : Pool} {P : List Tx} (h : CInv mp P) : CInv mp.select.1 P := by
+  unfold Pool.select
+  split
+  · exact h
+  · unfold Pool.reorder
+    apply cinv_reweigh_fold _ mp h
+    · intro di hdi
+      simp only [Pool.reorderKeys] at hdi
+      rcases List.mem_map.mp hdi with ⟨k, hk, e⟩
+      subst e
+      exact ⟨(List.mem_filter.mp hk).1, _, rfl⟩
+    · simp only [Pool.reorderKeys, List.map_map]
+      exact List.Nodup.sublist (List.Sublist.map _ List.filter_sublist) h.pkeys
+
+theorem cinv_steps (ops : List Op) : ∀ (mp : Pool) (P : List Tx), CInv mp P →
+    CInv (ops.foldl Pool.step mp) (ops.foldl pendingStep P) := by
+  induction ops with
+  | nil => intro mp P h; exact h
+  | cons op ops ih =>
+    intro mp P h
+    rw [List.foldl_cons, List.foldl_cons]
+    apply ih
+    cases op with
+    | insert s n p id => exact cinv_insert h s n p id
+    | remove s n => exact cinv_remove h s n
+    | select => exact cinv_select h
+
+theorem cinv_run (ops : List Op) : CInv (run ops) (pending ops) :=
+  cinv_steps ops _ _ cinv_empty
+
+/-! ### an iterator in use while the pool changes (`LState`, `LOp`) -/
+
+/-- the pool operations of an interleaved history (`iopen` is a `Select`, `inext` touches nothing) -/
+def lpoolOps : List LOp → List Op
+  | [] => []
+  | .pool op :: rest => op :: lpoolOps rest
+  | .iopen :: rest => .select :: lpoolOps rest
+  | .inext :: rest => lpoolOps rest
+
+theorem lpoolOps_append (a b : List LOp) : lpoolOps (a ++ b) = lpoolOps a ++ lpoolOps b := by
+  induction a with
+  | nil => rfl
+  | cons op a ih =>
+    cases op with
+    | pool o => simp [lpoolOps, ih]
+    | iopen => simp [lpoolOps, ih]
+    | inext => simp [lpoolOps, ih]
+
+theorem selectStart_fst (mp : Pool) : mp.selectStart.1 = mp.select.1 := by
+  unfold Pool.selectStart Pool.select
+  split <;> rfl
+
+/-- the pool component of an interleaved run is the run of its pool operations -/
+theorem lstep_pool (st : LState) (op : LOp) :
+    (st.step op).1.pool = (lpoolOps [op]).foldl Pool.step st.pool := by
+  cases op with
+  | pool o =>
+    cases o with
+    | insert s n p id => rfl
+    | remove s n => rfl
+    | select => rfl
+  | iopen => simp only [LState.step, Pool.liveOpen, selectStart_fst, lpoolOps, List.foldl_cons, List.foldl_nil, Pool.step]
+  | inext =>
+    simp only [LState.step, lpoolOps, List.foldl_nil]
+    split <;> rfl
+
+theorem lrunFrom_pool (ops : List LOp) : ∀ st : LState,
+    (lrunFrom st ops).1.pool = (lpoolOps ops).foldl Pool.step st.pool := by
+  induction ops with
+  | nil => intro st; rfl
+  | cons op rest ih =>
+    intro st
+    simp only [lrunFrom]
+    rw [ih, lstep_pool]
+    have : lpoolOps (op :: rest) = lpoolOps [op] ++ lpoolOps rest := lpoolOps_append [op] rest
+    rw [this, List.foldl_append]
+
+theorem lrun_pool (ops : List LOp) : (lrun ops).1.pool = run (lpoolOps ops) :=
+  lrunFrom_pool ops LState.init
+
+theorem lrunFrom_append (a b : List LOp) : ∀ st : LState,
+    (lrunFrom st (a ++ b)).1 = (lrunFrom (lrunFrom st a).1 b).1 := by
+  induction a with
+  | nil => intro st; rfl
+  | cons op a ih => intro st; simp only [List.cons_append, lrunFrom, ih]
+
+theorem cursorOf_setCursor_self (cs : List (String × Cursor)) (s : String) (c : Cursor) :
+    cursorOf (setCursor cs s c) s = some c := by
+  simp [cursorOf, setCursor]
+
+theorem cursorOf_setCursor_other (cs : List (String × Cursor)) (s z : String) (c : Cursor) (h : z ≠ s) :
+    cursorOf (setCursor cs s c) z = cursorOf cs z := by
+  have hsz : (s == z) = false := by simp; exact fun e => h e.symm
+  simp only [cursorOf, setCursor, List.find?_cons, hsz]
+  congr 1
+  induction cs with
+  | nil => rfl
+  | cons p cs ih =>
+    by_cases hp : p.1 = s
+    · have h1 : (p.1 != s) = false := by simp [hp]
+      have h2 : (p.1 == z) = false := by simp [hp]; exact fun e => h e.symm
+      rw [List.filter_cons, if_neg (by simp [h1]), List.find?_cons, h2]
+      exact ih
+    · have h1 : (p.1 != s) = true := by simp [hp]
+      rw [List.filter_cons, if_pos h1, List.find?_cons, List.find?_cons]
+      cases hz : (p.1 == z) with
+      | true => rfl
+      | false => exact ih
+
+theorem liveRem_sub (sidx : String → List Tx) (cs : List (String × Cursor)) (s : String) :
+    ∀ e ∈ liveRem sidx cs s, e ∈ sidx s := by
+  intro e he
+  unfold liveRem at he
+  split at he
+  · exact he
+  · split at he
+    · cases he
+    · exact (List.dropWhile_sublist _).subset he
+
+/-- the head of what is left for a sender lies strictly behind its cursor -/
+theorem liveRem_head_gt (sidx : String → List Tx) (cs : List (String × Cursor)) (s : String)
+    (e : Tx) (es : List Tx) (h : liveRem sidx cs s = e :: es) (c : Cursor) (hc : cursorOf cs s = some c) :
+    c.tx.nonce < e.nonce := by
+  unfold liveRem at h
+  rw [hc] at h
+  simp only at h
+  split at h
+  · cases h
+  · have hne : List.dropWhile (fun x : Tx => decide (x.nonce ≤ c.tx.nonce)) (sidx s) ≠ [] := by
+      rw [h]; simp
+    have := List.head_dropWhile_not (fun x : Tx => decide (x.nonce ≤ c.tx.nonce)) hne
+    simp only [h, List.head_cons, decide_eq_false_iff_not] at this
+    omega
+
+/-- `advance` stops at the head of what is left for the sender of the element it stops on -/
+theorem advance_head (scores : String → Nat → Option Score) (R : List PNode) :
+    ∀ (rem : String → List Tx) (x : Iter), advance scores R rem = .at x →
+      ∃ m rest es, x.nodes = m :: rest ∧ rem m.sender = x.cur :: es := by
+  induction R with
+  | nil => intro rem x h; simp [advance] at h
+  | cons m rest ih =>
+    intro rem x h
+    cases hl : rem m.sender with
+    | nil =>
+      have : advance scores (m :: rest) rem = advance scores rest rem := by simp only [advance, hl]
+      rw [this] at h; exact ih rem x h
+    | cons e es =>
+      cases hp : passes scores rest.head? m.sender e with
+      | stop =>
+        have : advance scores (m :: rest) rem = advance scores rest rem := by simp only [advance, hl, hp]
+        rw [this] at h; exact ih rem x h
+      | panic =>
+        have : advance scores (m :: rest) rem = .panic := by simp only [advance, hl, hp]
+        rw [this] at h; cases h
+      | pass =>
+        have : advance scores (m :: rest) rem = .at ⟨m :: rest, upd rem m.sender es, e⟩ := by
+          simp only [advance, hl, hp]
+        rw [this] at h
+        cases h
+        exact ⟨m, rest, es, rfl, hl⟩
+
+/-- what a non-nil result of `liveOfAdvance` is: it stands on the head `e` of what was left for some
+    sender `z`, `e` becomes `z`'s cursor and no other cursor moves -/
+theorem liveOfAdvance_at (cs : List (String × Cursor)) (scores : String → Nat → Option Score)
+    (R : List PNode) (rem : String → List Tx) (it' : LiveIter)
+    (h : liveOfAdvance cs (advance scores R rem) = .at it') :
+    ∃ z e es, rem z = e :: es ∧ it'.cursors = setCursor cs z ⟨e, false⟩ ∧ it'.pnode.sender = z := by
+  cases ha : advance scores R rem with
+  | done => rw [ha] at h; simp [liveOfAdvance] at h
+  | panic => rw [ha] at h; simp [liveOfAdvance] at h
+  | «at» x =>
+    obtain ⟨m, rest, es, hn, hr⟩ := advance_head scores R rem x ha
+    rw [ha] at h
+    simp only [liveOfAdvance, hn, LiveResult.at.injEq] at h
+    subst h
+    exact ⟨m.sender, x.cur, es, hr, rfl, rfl⟩
+
+/-- one `Next()` on the live pool that does not end the iteration: the iterator now stands on the
+    head `e` of what was left for some sender `z` (so `e` is in `z`'s sender index and strictly behind
+    `z`'s cursor), `e` becomes `z`'s cursor, and no other cursor moves -/
+theorem next_at (mp : Pool) (it it' : LiveIter) (h : it.next mp = .at it') :
+    ∃ z e es, liveRem mp.sidx it.cursors z = e :: es ∧ it'.cursors = setCursor it.cursors z ⟨e, false⟩ ∧
+      it'.pnode.sender = z := by
+  unfold LiveIter.next at h
+  cases hl : liveRem mp.sidx it.cursors it.pnode.sender with
+  | nil =>
+    simp only [hl] at h
+    exact liveOfAdvance_at _ _ _ _ it' h
+  | cons e es =>
+    simp only [hl] at h
+    cases hp : passesLive mp.scores it.nextPrio (liveSucc mp.pidx it).head? it.pnode.sender e with
+    | stop =>
+      simp only [hp] at h
+      exact liveOfAdvance_at _ _ _ _ it' h
+    | panic => simp [hp] at h
+    | pass =>
+      simp only [hp, LiveResult.at.injEq] at h
+      subst h
+      exact ⟨it.pnode.sender, e, es, hl, rfl, rfl⟩
+
+theorem liveOpen_at (mp : Pool) (it' : LiveIter) (h : mp.liveOpen.2 = .at it') :
+    ∃ z e es, mp.select.1.sidx z = e :: es ∧ it'.cursors = setCursor [] z ⟨e, false⟩ ∧
+      it'.pnode.sender = z := by
+  unfold Pool.liveOpen at h
+  simp only at h
+  have hs : mp.selectStart = if mp.pidx.isEmpty then (mp, .done)
+      else (mp.reorder, advance mp.reorder.scores mp.reorder.pidx mp.reorder.sidx) := rfl
+  by_cases he : mp.pidx.isEmpty = true
+  · rw [hs, if_pos he] at h
+    simp [liveOfAdvance] at h
+  · have hsel : mp.select.1 = mp.reorder := by unfold Pool.select; rw [if_neg he]
+    rw [hs, if_neg he] at h
+    simp only at h
+    obtain ⟨z, e, es, h1, h2, h3⟩ := liveOfAdvance_at [] _ _ _ it' h
+    exact ⟨z, e, es, by rw [hsel]; exact h1, h2, h3⟩
+
+/-- a non-nil iterator whose cursor for its own sender is `e` yields `e` -/
+theorem yield_at (it' : LiveIter) (z : String) (e : Tx) (cs : List (String × Cursor))
+    (h2 : it'.cursors = setCursor cs z ⟨e, false⟩) (h3 : it'.pnode.sender = z) :
+    (LiveResult.at it').yield = .tx e := by
+  simp only [LiveResult.yield, LiveIter.cur?, h2, h3, cursorOf_setCursor_self, Option.map_some]
+
+/-- every sender index holds transactions of that sender only (true of every reachable pool) -/
+def SidxSender (mp : Pool) : Prop := ∀ s, ∀ e ∈ mp.sidx s, e.sender = s
+
+theorem sset_sender (t : Tx) (s : String) (ht : t.sender = s) (l : List Tx) (h : ∀ e ∈ l, e.sender = s) :
+    ∀ e ∈ sset t l, e.sender = s := by
+  induction l with
+  | nil => intro e he; simp only [sset, List.mem_singleton] at he; rw [he]; exact ht
+  | cons x xs ih =>
+    have hx := h x (by simp)
+    have hxs : ∀ e ∈ xs, e.sender = s := fun e he => h e (by simp [he])
+    intro e he
+    unfold sset at he
+    split at he
+    · rcases List.mem_cons.mp he with rfl | he
+      · exact ht
+      · exact h e he
+    · split at he
+      · rcases List.mem_cons.mp he with rfl | he
+        · exact hx
+        · exact hxs e he
+      · rcases List.mem_cons.mp he with rfl | he
+        · exact hx
+        · exact ih hxs e he
+
+theorem reweigh_fold_sidx (todo : List (PNode × PNode)) : ∀ mp : Pool,
+    (todo.foldl Pool.reweigh mp).sidx = mp.sidx := by
+  induction todo with
+  | nil => intro mp; rfl
+  | cons d todo ih => intro mp; rw [List.foldl_cons, ih]; rfl
+
+theorem select_sidx (mp : Pool) : mp.select.1.sidx = mp.sidx := by
+  unfold Pool.select
+  split
+  · rfl
+  · exact reweigh_fold_sidx _ mp
+
+theorem sidxSender_step (mp : Pool) (op : Op) (h : SidxSender mp) : SidxSender (mp.step op) := by
+  cases op with
+  | insert s n p id =>
+    intro z e he
+    simp only [Pool.step, Pool.insert, upd] at he
+    split at he
+    · rename_i hz; subst hz
+      exact sset_sender ⟨z, n, p, id⟩ z rfl _ (h z) e he
+    · exact h z e he
+  | remove s n =>
+    intro z e he
+    simp only [Pool.step, Pool.remove] at he
+    split at he
+    · exact h z e he
+    · simp only [upd] at he
+      split at he
+      · rename_i hz; subst hz
+        exact h z e ((serase_sublist _ _).subset he)
+      · exact h z e he
+  | select =>
+    intro z e he
+    simp only [Pool.step, select_sidx] at he
+    exact h z e he
+
+theorem sidxSender_fold (ops : List Op) : ∀ mp, SidxSender mp → SidxSender (ops.foldl Pool.step mp) := by
+  induction ops with
+  | nil => intro mp h; exact h
+  | cons op ops ih => intro mp h; exact ih _ (sidxSender_step mp op h)
+
+theorem sidxSender_lrunFrom (ops : List LOp) (st : LState) (h : SidxSender st.pool) :
+    SidxSender (lrunFrom st ops).1.pool := by
+  rw [lrunFrom_pool]; exact sidxSender_fold _ _ h
+
+/-- the yields of an interleaved history, each tagged with the number of the `iopen` (generation of
+    the iterator) it came from -/
+def ltrace (st : LState) (g : Nat) : List LOp → List (Nat × Tx)
+  | [] => []
+  | op :: rest =>
+    (match (st.step op).2 with
+      | .tx t => [(if op = .iopen then g + 1 else g, t)]
+      | _ => []) ++ ltrace (st.step op).1 (if op = .iopen then g + 1 else g) rest
+
+theorem ltrace_gen_ge (ops : List LOp) : ∀ (st : LState) (g : Nat), ∀ b ∈ ltrace st g ops, g ≤ b.1 := by
+  induction ops with
+  | nil => intro st g b hb; cases hb
+  | cons op rest ih =>
+    intro st g b hb
+    simp only [ltrace] at hb
+    rcases List.mem_append.mp hb with hb | hb
+    · split at hb
+      · simp only [List.mem_singleton] at hb; subst hb; simp only; split <;> omega
+      · cases hb
+    · have := ih _ _ b hb
+      split at this <;> omega
+
+/-- cursors: a map over the entries that keeps sender and nonce keeps every cursor's nonce -/
+theorem cursorOf_map (cs : List (String × Cursor)) (f : String × Cursor → String × Cursor)
+    (hf1 : ∀ p, (f p).1 = p.1) (hf2 : ∀ p, (f p).2.tx.nonce = p.2.tx.nonce) (z : String) (c : Cursor)
+    (h : cursorOf cs z = some c) : ∃ c', cursorOf (cs.map f) z = some c' ∧ c'.tx.nonce = c.tx.nonce := by
+  induction cs with
+  | nil => simp [cursorOf] at h
+  | cons p cs ih =>
+    simp only [cursorOf, List.find?_cons, List.map_cons] at h ⊢
+    rw [hf1 p]
+    cases hz : (p.1 == z) with
+    | true =>
+      rw [hz] at h
+      simp only [Option.map_some, Option.some.injEq] at h ⊢
+      exact ⟨_, rfl, by rw [hf2 p, h]⟩
+    | false =>
+      rw [hz] at h
+      exact ih h
+
+/-- "the cursor of sender `s`, if the iterator is in use, is at nonce `n` or behind it" -/
+def CurGe (st : LState) (s : String) (n : Nat) : Prop :=
+  ∀ it, st.it = some it → ∃ c, cursorOf it.cursors s = some c ∧ n ≤ c.tx.nonce
+
+theorem pErased_cursors (it : LiveIter) (pidx : List PNode) (key : PNode) :
+    (it.pErased pidx key).cursors = it.cursors := rfl
+
+theorem liveReweigh_fold_cursors (todo : List (PNode × PNode)) : ∀ st : Pool × LiveIter,
+    (todo.foldl liveReweigh st).2.cursors = st.2.cursors := by
+  induction todo with
+  | nil => intro st; rfl
+  | cons d todo ih => intro st; rw [List.foldl_cons, ih]; rfl
+
+theorem onSelect_cursors (it : LiveIter) (mp : Pool) : (it.onSelect mp).cursors = it.cursors := by
+  unfold LiveIter.onSelect
+  split
+  · rfl
+  · exact liveReweigh_fold_cursors _ _
+
+/-- pool operations never move a cursor -/
+theorem curGe_pool (st : LState) (op : Op) (s : String) (n : Nat) (h : CurGe st s n) :
+    CurGe (st.step (.pool op)).1 s n := by
+  intro it' hit'
+  cases op with
+  | insert z k p id =>
+    simp only [LState.step, Option.map_eq_some_iff] at hit'
+    obtain ⟨it, hit, rfl⟩ := hit'
+    obtain ⟨c, hc, hn⟩ := h it hit
+    have : (it.onInsert st.pool z k id).cursors = it.cursors.map (revalueCursor z k id) := rfl
+    rw [this]
+    obtain ⟨c', h1, h2⟩ := cursorOf_map it.cursors (revalueCursor z k id)
+      (by intro p; unfold revalueCursor; split <;> rfl) (by intro p; unfold revalueCursor; split <;> rfl) s c hc
+    exact ⟨c', h1, by omega⟩
+  | remove z k =>
+    simp only [LState.step, Option.map_eq_some_iff] at hit'
+    obtain ⟨it, hit, rfl⟩ := hit'
+    obtain ⟨c, hc, hn⟩ := h it hit
+    unfold LiveIter.onRemove
+    split
+    · exact ⟨c, hc, hn⟩
+    · obtain ⟨c', h1, h2⟩ := cursorOf_map it.cursors
+        (killCursor z k ((st.pool.sidx z).any (fun x => x.nonce == k)))
+        (by intro p; unfold killCursor; split <;> rfl) (by intro p; unfold killCursor; split <;> rfl) s c hc
+      exact ⟨c', h1, by omega⟩
+  | select =>
+    simp only [LState.step, Option.map_eq_some_iff] at hit'
+    obtain ⟨it, hit, rfl⟩ := hit'
+    obtain ⟨c, hc, hn⟩ := h it hit
+    rw [onSelect_cursors]
+    exact ⟨c, hc, hn⟩
+
+/-- forward: once sender `s`'s cursor is at nonce `n`, everything the SAME iterator yields for `s`
+    later has a larger nonce — whatever pool operations come in between -/
+theorem ltrace_forward (s : String) (n : Nat) (ops : List LOp) : ∀ (st : LState) (g : Nat),
+    SidxSender st.pool → CurGe st s n →
+    ∀ b ∈ ltrace st g ops, b.1 = g → b.2.sender = s → n < b.2.nonce := by
+  induction ops with
+  | nil => intro st g _ _ b hb; cases hb
+  | cons op rest ih =>
+    intro st g hss hcur b hb hg hs
+    have hss' : SidxSender (st.step op).1.pool := by
+      have := sidxSender_lrunFrom [op] st hss
+      simpa [lrunFrom] using this
+    simp only [ltrace] at hb
+    cases op with
+    | pool o =>
+      have hne : (LOp.pool o = LOp.iopen) = False := by simp
+      simp only [hne, if_false] at hb
+      have hy : (st.step (.pool o)).2 = .none := by cases o <;> rfl
+      rw [hy] at hb
+      simp only [List.nil_append] at hb
+      exact ih _ g hss' (curGe_pool st o s n hcur) b hb hg hs
+    | iopen =>
+      simp only [if_true] at hb
+      rcases List.mem_append.mp hb with hb | hb
+      · split at hb
+        · simp only [List.mem_singleton] at hb; subst hb; simp only at hg; omega
+        · cases hb
+      · have := ltrace_gen_ge rest _ (g + 1) b hb
+        omega
+    | inext =>
+      have hne : (LOp.inext = LOp.iopen) = False := by simp
+      simp only [hne, if_false] at hb
+      cases hit : st.it with
+      | none =>
+        have hst : st.step .inext = (st, .none) := by simp only [LState.step, hit]
+        rw [hst] at hb
+        simp only [List.nil_append] at hb
+        exact ih st g hss hcur b hb hg hs
+      | some it =>
+        have hst : st.step .inext = (⟨st.pool, (it.next st.pool).iter?⟩, (it.next st.pool).yield) := by
+          simp only [LState.step, hit]
+        rw [hst] at hb
+        simp only at hb
+        obtain ⟨c, hc, hn⟩ := hcur it hit
+        cases hr : it.next st.pool with
+        | done =>
+          rw [hr] at hb
+          simp only [LiveResult.yield, LiveResult.iter?, List.nil_append] at hb
+          exact ih ⟨st.pool, none⟩ g hss (by intro it' h'; cases h') b hb hg hs
+        | panic =>
+          rw [hr] at hb
+          simp only [LiveResult.yield, LiveResult.iter?, List.nil_append] at hb
+          exact ih ⟨st.pool, none⟩ g hss (by intro it' h'; cases h') b hb hg hs
+        | «at» it' =>
+          obtain ⟨z, e, es, h1, h2, h3⟩ := next_at st.pool it it' hr
+          rw [hr] at hb
+          rw [yield_at it' z e it.cursors h2 h3] at hb
+          simp only [LiveResult.iter?] at hb
+          have hez : e.sender = z := hss z e (liveRem_sub _ _ _ e (by rw [h1]; simp))
+          have hcur' : CurGe ⟨st.pool, some it'⟩ s n := by
+            intro it'' h''
+            simp only [Option.some.injEq] at h''
+            subst h''
+            rw [h2]
+            by_cases hzs : s = z
+            · subst hzs
+              rw [cursorOf_setCursor_self]
+              have := liveRem_head_gt _ _ _ e es h1 c hc
+              exact ⟨_, rfl, by simp only; omega⟩
+            · rw [cursorOf_setCursor_other _ _ _ _ hzs]
+              exact ⟨c, hc, hn⟩
+          rcases List.mem_append.mp hb with hb | hb
+          · simp only [List.mem_singleton] at hb
+            subst hb
+            simp only at hs
+            have hzs : z = s := by rw [← hez, hs]
+            subst hzs
+            have := liveRem_head_gt _ _ _ e es h1 c hc
+            simp only; omega
+          · exact ih ⟨st.pool, some it'⟩ g hss hcur' b hb hg hs
+
+theorem sidxSender_empty : SidxSender Pool.empty := by intro s e he; cases he
+
+theorem ltrace_pairwise (ops : List LOp) : ∀ (st : LState) (g : Nat), SidxSender st.pool →
+    (ltrace st g ops).Pairwise (fun a b => a.1 = b.1 → a.2.sender = b.2.sender → a.2.nonce < b.2.nonce) := by
+  induction ops with
+  | nil => intro _ _ _; exact List.Pairwise.nil
+  | cons op rest ih =>
+    intro st g hss
+    have hss' : SidxSender (st.step op).1.pool := by
+      have := sidxSender_lrunFrom [op] st hss
+      simpa [lrunFrom] using this
+    simp only [ltrace]
+    rw [List.pairwise_append]
+    refine ⟨?_, ih _ _ hss', ?_⟩
+    · split
+      · exact List.pairwise_singleton _ _
+      · exact List.Pairwise.nil
+    · intro a ha b hb hg hs
+      split at ha
+      · rename_i t hy
+        simp only [List.mem_singleton] at ha
+        subst ha
+        simp only at hg hs ⊢
+        -- after the step the cursor of `t.sender` is `t`
+        have hcur : CurGe (st.step op).1 t.sender t.nonce := by
+          cases op with
+          | pool o => have : (st.step (.pool o)).2 = .none := by cases o <;> rfl
+                      rw [this] at hy; cases hy
+          | iopen =>
+            simp only [LState.step] at hy ⊢
+            cases hr : st.pool.liveOpen.2 with
+            | done => rw [hr] at hy; cases hy
+            | panic => rw [hr] at hy; cases hy
+            | «at» it' =>
+              obtain ⟨z, e, es, h1, h2, h3⟩ := liveOpen_at st.pool it' hr
+              rw [hr, yield_at it' z e [] h2 h3] at hy
+              cases hy
+              have hez : t.sender = z := by
+                have : SidxSender st.pool.select.1 := by
+                  have := hss'
+                  simp only [LState.step, Pool.liveOpen, selectStart_fst] at this
+                  exact this
+                exact this z t (by rw [h1]; simp)
+              intro it'' h''
+              simp only [LiveResult.iter?, Option.some.injEq] at h''
+              subst h''
+              rw [h2, hez, cursorOf_setCursor_self]
+              exact ⟨_, rfl, Nat.le_refl _⟩
+          | inext =>
+            cases hit : st.it with
+            | none => simp only [LState.step, hit] at hy; cases hy
+            | some it =>
+              simp only [LState.step, hit] at hy ⊢
+              cases hr : it.next st.pool with
+              | done => rw [hr] at hy; cases hy
+              | panic => rw [hr] at hy; cases hy
+              | «at» it' =>
+                obtain ⟨z, e, es, h1, h2, h3⟩ := next_at st.pool it it' hr
+                rw [hr, yield_at it' z e it.cursors h2 h3] at hy
+                cases hy
+                have hez : t.sender = z := hss z t (liveRem_sub _ _ _ t (by rw [h1]; simp))
+                intro it'' h''
+                simp only [LiveResult.iter?, Option.some.injEq] at h''
+                subst h''
+                rw [h2, hez, cursorOf_setCursor_self]
+                exact ⟨_, rfl, Nat.le_refl _⟩
+        exact ltrace_forward t.sender t.nonce rest _ _ hss' hcur b hb hg.symm hs.symm
+      · cases ha
+
+
+/-! ### an undisturbed live iterator is the snapshot iterator -/
+
+theorem passes_eq_live (scores : String → Nat → Option Score) (next : Option PNode) (s : String) (e : Tx) :
+    passesLive scores (nextPriority next) next s e = passes scores next s e := by
+  cases next with
+  | none =>
+    simp only [passesLive, passes, nextPriority]
+    by_cases h1 : e.prio < minInt64 <;> by_cases h2 : e.prio = minInt64 <;> simp [h1, h2]
+  | some m =>
+    simp only [passesLive, passes, nextPriority]
+    by_cases h1 : e.prio < m.prio <;> by_cases h2 : e.prio = m.prio <;>
+      by_cases h3 : weightOf scores s e.nonce < m.weight <;> simp [h1, h2, h3]
+
+theorem dropWhile_nonce_sorted (pre es : List Tx) (e : Tx) (h : SSorted (pre ++ e :: es)) :
+    (pre ++ e :: es).dropWhile (fun x => decide (x.nonce ≤ e.nonce)) = es := by
+  induction pre with
+  | nil =>
+    simp only [List.nil_append, List.dropWhile_cons, Nat.le_refl, decide_true, if_true]
+    cases es with
+    | nil => rfl
+    | cons y ys =>
+      have := (List.pairwise_cons.mp h).1 y (by simp)
+      simp only [List.dropWhile_cons]
+      rw [if_neg (by simp only [decide_eq_true_eq]; omega)]
+  | cons x pre ih =>
+    have hs := List.pairwise_cons.mp h
+    have hx := hs.1 e (by simp)
+    simp only [List.cons_append, List.dropWhile_cons]
+    rw [if_pos (by simp only [decide_eq_true_eq]; omega)]
+    exact ih hs.2
+
+theorem liveRem_suffix (sidx : String → List Tx) (cs : List (String × Cursor)) (s : String) :
+    liveRem sidx cs s <:+ sidx s := by
+  unfold liveRem
+  split
+  · exact List.suffix_refl _
+  · split
+    · exact List.nil_suffix
+    · exact List.dropWhile_suffix _
+
+/-- moving `s`'s cursor onto the head of what was left for `s` leaves the tail -/
+theorem liveRem_setCursor (sidx : String → List Tx) (cs : List (String × Cursor)) (s : String)
+    (e : Tx) (es : List Tx) (hs : SSorted (sidx s)) (h : liveRem sidx cs s = e :: es) :
+    liveRem sidx (setCursor cs s ⟨e, false⟩) = upd (liveRem sidx cs) s es := by
+  funext z
+  simp only [upd]
+  split
+  · rename_i hz; subst hz
+    obtain ⟨pre, hp⟩ := liveRem_suffix sidx cs z
+    rw [h] at hp
+    unfold liveRem
+    rw [cursorOf_setCursor_self]
+    simp only [Bool.false_eq_true, if_false]
+    rw [← hp]
+    rw [← hp] at hs
+    exact dropWhile_nonce_sorted pre es e hs
+  · rename_i hz
+    unfold liveRem
+    rw [cursorOf_setCursor_other _ _ _ _ hz]
+
+theorem dropWhile_key_sorted (pre rest : List PNode) (m : PNode) (h : Sorted (pre ++ m :: rest)) :
+    ((pre ++ m :: rest).dropWhile (fun k => keyCmp k m != .eq)).drop 1 = rest := by
+  induction pre with
+  | nil =>
+    simp only [List.nil_append, List.dropWhile_cons, keyCmp_self]
+    rfl
+  | cons x pre ih =>
+    have hs := List.pairwise_cons.mp h
+    have hx : keyCmp x m = .gt := hs.1 m (by simp)
+    simp only [List.cons_append, List.dropWhile_cons, hx]
+    exact ih hs.2
+
+/-- `advance` returns a suffix of the elements it was given -/
+theorem advance_nodes_suffix (scores : String → Nat → Option Score) (R : List PNode) :
+    ∀ (rem : String → List Tx) (x : Iter), advance scores R rem = .at x → x.nodes <:+ R := by
+  induction R with
+  | nil => intro rem x h; simp [advance] at h
+  | cons m rest ih =>
+    intro rem x h
+    cases hl : rem m.sender with
+    | nil =>
+      have : advance scores (m :: rest) rem = advance scores rest rem := by simp only [advance, hl]
+      rw [this] at h
+      exact List.IsSuffix.trans (ih rem x h) (List.suffix_cons m rest)
+    | cons e es =>
+      cases hp : passes scores rest.head? m.sender e with
+      | stop =>
+        have : advance scores (m :: rest) rem = advance scores rest rem := by simp only [advance, hl, hp]
+        rw [this] at h
+        exact List.IsSuffix.trans (ih rem x h) (List.suffix_cons m rest)
+      | panic =>
+        have : advance scores (m :: rest) rem = .panic := by simp only [advance, hl, hp]
+        rw [this] at h; cases h
+      | pass =>
+        have : advance scores (m :: rest) rem = .at ⟨m :: rest, upd rem m.sender es, e⟩ := by
+          simp only [advance, hl, hp]
+        rw [this] at h
+        cases h
+        exact List.suffix_refl _
+
+/-- and the `rem` it returns is the given one with the tail for the sender it stopped on -/
+theorem advance_rem_eq (scores : String → Nat → Option Score) (R : List PNode) :
+    ∀ (rem : String → List Tx) (x : Iter), advance scores R rem = .at x →
+      ∃ m rest es, x.nodes = m :: rest ∧ rem m.sender = x.cur :: es ∧ x.rem = upd rem m.sender es := by
+  induction R with
+  | nil => intro rem x h; simp [advance] at h
+  | cons m rest ih =>
+    intro rem x h
+    cases hl : rem m.sender with
+    | nil =>
+      have : advance scores (m :: rest) rem = advance scores rest rem := by simp only [advance, hl]
+      rw [this] at h; exact ih rem x h
+    | cons e es =>
+      cases hp : passes scores rest.head? m.sender e with
+      | stop =>
+        have : advance scores (m :: rest) rem = advance scores rest rem := by simp only [advance, hl, hp]
+        rw [this] at h; exact ih rem x h
+      | panic =>
+        have : advance scores (m :: rest) rem = .panic := by simp only [advance, hl, hp]
+        rw [this] at h; cases h
+      | pass =>
+        have : advance scores (m :: rest) rem = .at ⟨m :: rest, upd rem m.sender es, e⟩ := by
+          simp only [advance, hl, hp]
+        rw [this] at h
+        cases h
+        exact ⟨m, rest, es, rfl, hl, rfl⟩
+
+/-- the live iterator `lit` and the snapshot iterator `sit` describe the same position of an
+    iteration over the (unchanged) pool `mp` -/
+structure Same (mp : Pool) (lit : LiveIter) (sit : Iter) : Prop where
+  alive : lit.pdead = false
+  nodes : ∃ pre, mp.pidx = pre ++ sit.nodes ∧ ∃ rest, sit.nodes = lit.pnode :: rest
+  rem : liveRem mp.sidx lit.cursors = sit.rem
+  nextp : lit.nextPrio = nextPriority sit.nodes.tail.head?
+  cur : lit.cur? = some sit.cur
+
+theorem liveSucc_of_same {mp : Pool} {lit : LiveIter} {sit : Iter} (hs : Sorted mp.pidx)
+    (h : Same mp lit sit) : sit.nodes = lit.pnode :: liveSucc mp.pidx lit := by
+  obtain ⟨pre, hp, rest, hn⟩ := h.nodes
+  rw [hn]
+  congr 1
+  unfold liveSucc
+  rw [h.alive]
+  simp only [Bool.false_eq_true, if_false]
+  rw [hp, hn]
+  rw [hp, hn] at hs
+  exact (dropWhile_key_sorted pre rest lit.pnode hs).symm
+
+/-- what `liveOfAdvance` makes of an `advance` over a suffix of the priority index -/
+theorem liveOfAdvance_same (mp : Pool) (hss : ∀ s, SSorted (mp.sidx s))
+    (cs : List (String × Cursor)) (R : List PNode) (hR : R <:+ mp.pidx) :
+    match advance mp.scores R (liveRem mp.sidx cs) with
+    | .done => liveOfAdvance cs (advance mp.scores R (liveRem mp.sidx cs)) = .done
+    | .panic => liveOfAdvance cs (advance mp.scores R (liveRem mp.sidx cs)) = .panic
+    | .at sit => ∃ lit, liveOfAdvance cs (advance mp.scores R (liveRem mp.sidx cs)) = .at lit ∧ Same mp lit sit := by
+  cases ha : advance mp.scores R (liveRem mp.sidx cs) with
+  | done => rfl
+  | panic => rfl
+  | «at» sit =>
+    obtain ⟨m, rest, es, hn, hr, hrem⟩ := advance_rem_eq _ _ _ sit ha
+    have hsuf := advance_nodes_suffix _ _ _ sit ha
+    simp only [liveOfAdvance, hn]
+    refine ⟨_, rfl, ⟨rfl, ?_, ?_, ?_, ?_⟩⟩
+    · obtain ⟨pre, hp⟩ := List.IsSuffix.trans hsuf hR
+      exact ⟨pre, hp.symm, rest, hn⟩
+    · simp only
+      rw [hrem]
+      exact liveRem_setCursor _ _ _ _ _ (hss _) hr
+    · simp only [hn, List.tail_cons]
+    · simp only [LiveIter.cur?, cursorOf_setCursor_self, Option.map_some]
+
+/-- one `Next()`: the live iterator on the unchanged pool does what the snapshot iterator does -/
+theorem next_same (mp : Pool) (hs : Sorted mp.pidx) (hss : ∀ s, SSorted (mp.sidx s))
+    (lit : LiveIter) (sit : Iter) (h : Same mp lit sit) :
+    match sit.next mp.scores with
+    | .done => lit.next mp = .done
+    | .panic => lit.next mp = .panic
+    | .at sit' => ∃ lit', lit.next mp = .at lit' ∧ Same mp lit' sit' := by
+  have hnodes := liveSucc_of_same hs h
+  have hsufR : liveSucc mp.pidx lit <:+ mp.pidx := by
+    obtain ⟨pre, hp, _⟩ := h.nodes
+    rw [hnodes] at hp
+    exact ⟨pre ++ [lit.pnode], by simp only [List.append_assoc, List.singleton_append]; exact hp.symm⟩
+  unfold Iter.next LiveIter.next
+  rw [hnodes, ← h.rem]
+  cases hl : liveRem mp.sidx lit.cursors lit.pnode.sender with
+  | nil =>
+    have : advance mp.scores (lit.pnode :: liveSucc mp.pidx lit) (liveRem mp.sidx lit.cursors)
+        = advance mp.scores (liveSucc mp.pidx lit) (liveRem mp.sidx lit.cursors) := by
+      simp only [advance, hl]
+    rw [this]
+    exact liveOfAdvance_same mp hss lit.cursors _ hsufR
+  | cons e es =>
+    have hnp : lit.nextPrio = nextPriority (liveSucc mp.pidx lit).head? := by
+      rw [h.nextp, hnodes]; rfl
+    simp only []
+    rw [hnp, passes_eq_live]
+    cases hp : passes mp.scores (liveSucc mp.pidx lit).head? lit.pnode.sender e with
+    | stop =>
+      have : advance mp.scores (lit.pnode :: liveSucc mp.pidx lit) (liveRem mp.sidx lit.cursors)
+          = advance mp.scores (liveSucc mp.pidx lit) (liveRem mp.sidx lit.cursors) := by
+        simp only [advance, hl, hp]
+      rw [this]
+      exact liveOfAdvance_same mp hss lit.cursors _ hsufR
+    | panic =>
+      have : advance mp.scores (lit.pnode :: liveSucc mp.pidx lit) (liveRem mp.sidx lit.cursors)
+          = .panic := by
+        simp only [advance, hl, hp]
+      rw [this]
+    | pass =>
+      have : advance mp.scores (lit.pnode :: liveSucc mp.pidx lit) (liveRem mp.sidx lit.cursors)
+          = .at ⟨lit.pnode :: liveSucc mp.pidx lit, upd (liveRem mp.sidx lit.cursors) lit.pnode.sender es, e⟩ := by
+        simp only [advance, hl, hp]
+      rw [this]
+      refine ⟨_, rfl, ⟨h.alive, ?_, ?_, ?_, ?_⟩⟩
+      · obtain ⟨pre, hp', _⟩ := h.nodes
+        rw [hnodes] at hp'
+        exact ⟨pre, hp', _, rfl⟩
+      · exact liveRem_setCursor _ _ _ _ _ (hss _) hl
+      · simp only [List.tail_cons] <;> exact hnp
+      · simp only [LiveIter.cur?, cursorOf_setCursor_self, Option.map_some]
+
+/-- the caller's loop on the live iterator over an unchanged pool -/
+def liveRunIter (mp : Pool) : Nat → LiveResult → List Tx × LiveResult
+  | _, .done => ([], .done)
+  | _, .panic => ([], .panic)
+  | 0, .at it => ([], .at it)
+  | k + 1, .at it =>
+    ((it.cur?.toList) ++ (liveRunIter mp k (it.next mp)).1, (liveRunIter mp k (it.next mp)).2)
+
+/-- how a live result corresponds to a snapshot result -/
+def SameRes (mp : Pool) : LiveResult → IterResult → Prop
+  | .done, .done => True
+  | .panic, .panic => True
+  | .at lit, .at sit => Same mp lit sit
+  | _, _ => False
+
+theorem liveRunIter_same (mp : Pool) (hs : Sorted mp.pidx) (hss : ∀ s, SSorted (mp.sidx s)) (k : Nat) :
+    ∀ (lr : LiveResult) (sr : IterResult), SameRes mp lr sr →
+      (liveRunIter mp k lr).1 = (runIter mp.scores k sr).1 ∧
+      SameRes mp (liveRunIter mp k lr).2 (runIter mp.scores k sr).2 := by
+  induction k with
+  | zero =>
+    intro lr sr h
+    cases lr <;> cases sr <;> simp only [SameRes] at h <;> simp [liveRunIter, runIter, SameRes, h]
+  | succ k ih =>
+    intro lr sr h
+    cases lr with
+    | done => cases sr <;> simp only [SameRes] at h; simp [liveRunIter, runIter, SameRes]
+    | panic => cases sr <;> simp only [SameRes] at h; simp [liveRunIter, runIter, SameRes]
+    | «at» lit =>
+      cases sr with
+      | done => simp only [SameRes] at h
+      | panic => simp only [SameRes] at h
+      | «at» sit =>
+        simp only [SameRes] at h
+        have hn := next_same mp hs hss lit sit h
+        have hres : SameRes mp (lit.next mp) (sit.next mp.scores) := by
+          revert hn
+          cases sit.next mp.scores with
+          | done => intro hn; rw [hn]; trivial
+          | panic => intro hn; rw [hn]; trivial
+          | «at» sit' => rintro ⟨lit', e, hsame⟩; rw [e]; exact hsame
+        obtain ⟨i1, i2⟩ := ih _ _ hres
+        simp only [liveRunIter, runIter, h.cur, Option.toList_some, List.singleton_append]
+        exact ⟨by rw [i1], i2⟩
+
+theorem liveRem_nil (sidx : String → List Tx) : liveRem sidx [] = sidx := by
+  funext s; simp [liveRem, cursorOf]
+
+
 end Lemmas
 
 /-! ## Property theorems (C19)
 
-Reading guide.  `Admissible ops` is the property's own precondition and nothing else: an inserted
-(sender, nonce) is not pending (or replaces a pending transaction of the same priority).
+Reading guide — the three preconditions, from weakest to strongest.
+
+* `KeysUnique ops` — the property text LITERALLY: "(sender, sequence) unique among pending
+  transactions", at every prefix of the history.  It is no restriction at all: it holds for
+  EVERY history (`keys_unique_always`), because `Insert` on a pending (sender, nonce) replaces the
+  pending transaction.  Under this precondition alone the clause "yields every pending
+  transaction" is FALSE (`literal_precondition_insufficient`, behaviour of /repo reproduced by
+  the harness).
+* `Admissible ops` — what the theorems really assume, STRONGER than the text: **no `insert` on a
+  pending (sender, nonce) with a CHANGED priority** (`admissible_iff`).  An insert on a pending key
+  with the same priority (re-submission) is allowed.  ASSUMPTION, justified for the wired
+  application by `admission_admissible` below; it fails exactly when a priority-changing
+  replacement reaches `Insert` (`replacement_changes_priority_loses_tx`,
+  `admission_uncovered_replaces`).
+* `Fresh ops` — no `insert` on a pending key at all.  This is what transaction admission gives
+  (`admission_admissible`): the SDK ante handler accepts sequence `n` only if it equals the
+  check-state sequence, which is above every pending sequence of that sender as long as CometBFT
+  re-checks everything the application pool holds after each commit (`ACovered`, an EXTERNAL
+  assumption about the node: `recheck = true` and CometBFT's mempool ⊇ the application's).
+
 `pending ops` is the specification of the pending set, a function of the history alone.
 `Int64Prios ops` is the Go type of the priorities (`int64`), not a restriction.
 `NoMin (pending ops)` — "no pending priority is the `MinValue` sentinel" — is a SIDE CONDITION that
-is **not** in the property statement; it is needed for exactly one clause ("every pending
-transaction is yielded"), that clause is false without it (`select_complete_false_at_minvalue`, a
-behaviour of /repo reproduced by the harness), and it holds in the application
-(`mempool_app`: `TxFeeSkipper` makes every CheckTx priority 42). -/
+is **not** in the property statement.  It is sufficient, not necessary (a `MinValue` priority behind
+a same-sender predecessor is yielded without a panic: see the examples); it is needed for exactly
+one clause ("every pending transaction is yielded"), that clause is false without it
+(`select_complete_false_at_minvalue`, a behaviour of /repo reproduced by the harness), and it holds
+in the application (`mempool_app`: `TxFeeSkipper` makes every CheckTx priority 42).
+
+The constants of `Model/Mempool.lean` (`classTable`, `minInt64`, `appCtxPriority`, the
+single-message guard, the mempool configuration) are compared with facts extracted from the Go
+source on every run: `model_constants_from_source`. -/
+
+/-- **model_constants_from_source.** The hand-written constants of the model are the ones in the
+source tree (facts regenerated by `extract/mempool.go` on every `./check`):
+* `classTable` = the `case strings.HasPrefix(msgTypeStr, p): return v` clauses of
+  `NewDefaultTxPriority.GetTxPriority`, in source order (4 clauses + the default = 5 `return`s);
+* the switch is guarded by `len(msgs) == 1` and classifies `sdk.MsgTypeURL(msgs[0])`
+  (`txPriority` matches on `[u]`); the default is `ctx.Priority()`;
+* `MinValue` = `math.MinInt64` = `minInt64`;
+* `TxFeeSkipper` has a single `return` whose priority is `appCtxPriority` (42), and `app/app.go`
+  sets `TxFeeChecker: palomamodule.TxFeeSkipper`;
+* `app/app.go` builds the pool with `DefaultPriorityMempool()` =
+  `NewPriorityMempool(DefaultPriorityNonceMempoolConfig())`, whose configuration sets only
+  `TxPriority` (no `TxReplacement`, `MaxTx = 0`), and hands the same pool to `SetMempool` and to
+  the proposal handler. -/
+theorem model_constants_from_source :
+    classTable = Gen.Mempool.txPriorityCases ∧
+    Gen.Mempool.txPriorityReturnCount = classTable.length + 1 ∧
+    Gen.Mempool.txPriorityGuard = "len(msgs) == 1" ∧
+    Gen.Mempool.txPriorityClassifiedBy = "msgTypeStr := sdk.MsgTypeURL(msgs[0])" ∧
+    Gen.Mempool.txPriorityDefault = "sdk.UnwrapSDKContext(goCtx).Priority()" ∧
+    minInt64 = Gen.Mempool.txPriorityMinValue ∧
+    appCtxPriority = Gen.Mempool.txFeeSkipperPriority ∧
+    Gen.Mempool.txFeeSkipperReturnCount = 1 ∧
+    Gen.Mempool.appTxFeeChecker = "palomamodule.TxFeeSkipper" ∧
+    Gen.Mempool.appMempoolCtor = "palomamempool.DefaultPriorityMempool()" ∧
+    Gen.Mempool.defaultPriorityMempool = "NewPriorityMempool(DefaultPriorityNonceMempoolConfig())" ∧
+    Gen.Mempool.mempoolConfigFields = ["TxPriority = NewDefaultTxPriority()"] ∧
+    Gen.Mempool.appSetMempoolArg = Gen.Mempool.appProposalHandlerMempool := by
+  decide
+
+/-- **keys_unique_always.** The literal precondition of the property text — (sender, sequence)
+unique among the pending transactions at every point of the history — holds for EVERY history of
+inserts, removes and selects, admissible or not: `Insert` replaces.  So it cannot be the hypothesis
+that makes the clauses true; see `literal_precondition_insufficient`. -/
+theorem keys_unique_always (ops : List Op) : KeysUnique ops :=
+  fun pre _ => fold_keys_nodup pre [] (by simp)
+
+/-- **admissible_iff.** What `Admissible` says, on the history itself: whenever the history
+inserts (s, n) with priority `p` after the operations `pre`, any transaction with that (sender,
+nonce) pending after `pre` has the same priority `p`.  I.e. "no insert on a pending key with a
+changed priority". -/
+theorem admissible_iff (ops : List Op) :
+    Admissible ops ↔ ∀ pre s n p id post, ops = pre ++ .insert s n p id :: post →
+      ∀ t ∈ pending pre, t.sender = s ∧ t.nonce = n → t.prio = p :=
+  admFrom_iff_prefix ops []
+
+/-- **fresh_admissible.** A history that never inserts on a pending key is admissible. -/
+theorem fresh_admissible (ops : List Op) (h : Fresh ops) : Admissible ops :=
+  freshFrom_adm ops [] h
+
+/-- **admission_admissible** (the reason `Admissible` holds in the wired application; "which
+transaction admission guarantees").  Model of what SDK `baseapp` (v0.50.13, read) does on the
+mempool connection, see `AOp`: `CheckTx(New)` inserts only a transaction whose sequence equals the
+check-state sequence of its first signer and then bumps it; `FinalizeBlock` removes; `Commit`
+resets the check state and CometBFT re-checks its mempool, a failing re-check removes the
+transaction from the application pool.  From ANY initial check-state sequences `seq0` and the empty
+pool: if at every commit each transaction pending in the application pool is among the re-checked
+ones (`ACovered` — EXTERNAL ASSUMPTION: `recheck = true` in CometBFT's config, which is the
+default, and CometBFT's mempool holds everything the application's does), then the pool operations
+the application issues never insert on a pending (sender, nonce) — `Fresh`, hence `Admissible` —
+and every CheckTx priority is `appCtxPriority` (`TxFeeSkipper`).  Without coverage the conclusion
+is false: `admission_uncovered_replaces`. -/
+theorem admission_admissible (seq0 : String → Nat) (aops : List AOp) (hcov : ACovered seq0 [] aops) :
+    Fresh ((acompile seq0 aops).map TxOp.toOp) ∧
+    Admissible ((acompile seq0 aops).map TxOp.toOp) ∧
+    (∀ s n urls c id, TxOp.insert s n urls c id ∈ acompile seq0 aops → c = appCtxPriority) := by
+  have hf := acompile_freshFrom aops seq0 [] (by intro t ht; cases ht) hcov
+  exact ⟨hf, freshFrom_adm _ [] hf, acompile_ctx aops seq0⟩
 
 /-- **index_consistent** (clause "the pool's count always equals the number of pending
 transactions", and the mechanism "indices kept in step").  After any history of `Insert`,
-`Remove` and `Select` in which an inserted (sender, nonce) is never already pending (or is
-re-inserted with an unchanged priority) — *whatever the priorities are, `MinValue` included* —
+`Remove` and `Select` in which no insert hits a pending (sender, nonce) with a changed priority
+(`Admissible`) — *whatever the priorities are, `MinValue` included* —
 the priority index, the per-sender indices, `scores` and `priorityCounts` all describe exactly
 the pending set, the priority index is sorted by the code's comparator, every sender index by
 nonce, and `CountTx` is the number of pending transactions. -/
@@ -1646,10 +3392,50 @@ theorem index_consistent (ops : List Op) (h : Admissible ops) :
 
 /-- **count_always.** "Always": at every point of an admissible history (every prefix `pre`),
 `CountTx` equals the number of pending transactions.  (`Admissible` is prefix-closed:
-`Admissible.prefix`.) -/
+`Admissible.prefix`.)  `Admissible` is sufficient here, not necessary: the count is right for
+EVERY history, `count_always_unconditional`. -/
 theorem count_always (pre post : List Op) (h : Admissible (pre ++ post)) :
     (run pre).count = (pending pre).length :=
   (index_consistent pre h.prefix).2.2.2.2.2
+
+/-- **count_always_unconditional** (clause "the pool's count always equals the number of pending
+transactions" — for EVERY history).  No precondition at all, not even `Admissible`: after any
+sequence of inserts (replacements with changed priority included), removes and selects, the
+priority index holds exactly the pending transactions (with the priority and id of the latest
+insert), it is sorted, `scores` has exactly the pending keys, `CountTx` is the number of pending
+transactions, and `Remove` succeeds exactly for a pending key.  What a priority-changing
+replacement breaks is only the sender index (its element keeps the old key priority), hence the
+ITERATION (`replacement_changes_priority_loses_tx`), never the count. -/
+theorem count_always_unconditional (ops : List Op) :
+    ((run ops).pidx.map PNode.tx).Perm (pending ops) ∧
+    Sorted (run ops).pidx ∧
+    (∀ s n, ((run ops).scores s n).isSome ↔ ∃ t ∈ pending ops, t.sender = s ∧ t.nonce = n) ∧
+    (run ops).count = (pending ops).length ∧
+    (∀ s n, ((run ops).remove s n).2 = true ↔ ∃ t ∈ pending ops, t.sender = s ∧ t.nonce = n) := by
+  have hi := cinv_run ops
+  have hsome : ∀ s n, ((run ops).scores s n).isSome ↔ ∃ t ∈ pending ops, t.sender = s ∧ t.nonce = n := by
+    intro s n
+    constructor
+    · intro hs
+      cases hsc : (run ops).scores s n with
+      | none => rw [hsc] at hs; cases hs
+      | some sc =>
+        obtain ⟨k, hk, e1, e2⟩ := hi.node_score s n sc hsc
+        exact ⟨k.tx, hi.node_mem hk, e1, e2⟩
+    · rintro ⟨t, ht, e1, e2⟩
+      obtain ⟨k, hk, hke⟩ := hi.node_of ht
+      have := hi.score_node k hk
+      subst hke e1 e2
+      simp only [PNode.tx]
+      rw [this]; rfl
+  refine ⟨hi.pperm, hi.psorted, hsome, ?_, ?_⟩
+  · have := hi.pperm.length_eq
+    rw [List.length_map] at this
+    exact this
+  · intro s n
+    rw [← hsome s n]
+    unfold Pool.remove
+    cases (run ops).scores s n <;> simp
 
 /-- **remove_found_iff** (the rejected branch of `Remove`).  `Remove` succeeds exactly for a
 pending (sender, nonce) and answers `ErrTxNotFound` — leaving the pool as it is — otherwise. -/
@@ -1722,6 +3508,24 @@ theorem select_safe (ops : List Op) (h : Admissible ops) (h64 : Int64Prios ops) 
   exact (List.mem_filter.mp
     (prefix_sorted_closed _ _ (h5.ssorted _) (h1 t.sender) t t' htf ht'm hlt)).1
 
+/-- **removed_never_yielded** (clause "never a removed one", in one statement).  In an admissible
+history: after `remove s n`, as long as (s, n) is not inserted again, no `Select` — exhaustive,
+and hence (`selectN_prefix`) none that is abandoned early — yields a transaction with that sender
+and sequence number; and a transaction that was replaced by a later insert on its key (same
+sender and nonce, different id) is not yielded either: everything yielded is the CURRENT pending
+transaction of its key. -/
+theorem removed_never_yielded (pre post : List Op) (s : String) (n : Nat)
+    (h : Admissible (pre ++ .remove s n :: post)) (h64 : Int64Prios (pre ++ .remove s n :: post))
+    (hpost : ∀ p id, Op.insert s n p id ∉ post) :
+    (∀ t ∈ (run (pre ++ .remove s n :: post)).select.2.1, ¬ (t.sender = s ∧ t.nonce = n)) ∧
+    (∀ t ∈ (run (pre ++ .remove s n :: post)).select.2.1,
+      ∀ t' ∈ pending (pre ++ .remove s n :: post), t'.sender = t.sender → t'.nonce = t.nonce → t' = t) := by
+  obtain ⟨_, hsub, _⟩ := select_safe _ h h64
+  refine ⟨fun t ht => removed_not_pending pre post s n hpost t (hsub t ht), ?_⟩
+  intro t ht t' ht' hs hn
+  have hnd := (inv_run _ h).keys_nodup
+  exact nodup_map_inj hnd ht' (hsub t ht) (by simp [Tx.skey, hs, hn])
+
 /-- **select_perm** (clause "yields every pending transaction exactly once, never a removed
 one").  After any admissible history in which no pending priority is the `MinValue` sentinel,
 `Select` (iterated to exhaustion) does not hit the nil dereference in `Next`, and yields a
@@ -1767,7 +3571,8 @@ theorem class_order (ops : List Op) (h : Admissible ops) (h64 : Int64Prios ops)
 /-- **select_in_history** (quantifier "including repeated selects between inserts").  A `select`
 anywhere inside an admissible history — with arbitrary operations, other selects included,
 before and after it — is the `Select` of the pool `run pre` the history has built up to that
-point, it leaves the pool `(run pre).select.1` to the rest of the history, and it satisfies
+point, it leaves the pool `(run pre).select.1` to the rest of the history (this first conjunct is
+the definition of `run` unfolded, stated for the reader), and it satisfies
 every clause: no panic, permutation of the transactions pending at that point, no repetition,
 per sender increasing nonces, class order. -/
 theorem select_in_history (pre post : List Op) (h : Admissible (pre ++ .select :: post))
@@ -1792,7 +3597,10 @@ theorem select_in_history (pre post : List Op) (h : Admissible (pre ++ .select :
 exactly the first `k` transactions of the exhaustive sequence, and leaves the pool exactly as
 the exhaustive `Select` does.  Hence every safety clause of `select_safe` / `class_order` holds
 for the part that was taken; the loop ends with a nil iterator only after the whole sequence
-has been yielded; it ends with a panic only if the exhaustive run panics.  No hypotheses. -/
+has been yielded; it ends with a panic only if the exhaustive run panics.  No hypotheses.  (The
+first conjunct holds by definition — `selectN` and `select` share `reorder`; the content is the
+second and third, `runIter_advance`.)  What the iterator STATE looks like after `k` rounds:
+`available_class_order`. -/
 theorem selectN_prefix (mp : Pool) (k : Nat) :
     (mp.selectN k).1 = mp.select.1 ∧
     (mp.selectN k).2.1 = mp.select.2.1.take k ∧
@@ -1830,6 +3638,151 @@ theorem selectN_complete (ops : List Op) (h : Admissible ops) (h64 : Int64Prios 
     | panic => intro q3; rw [p1] at q3; cases q3.1
     | done => intro q3; rw [q3.2]; exact p2
     | «at» it => intro q3; exact q3
+
+/-- **available_class_order** (clause "between two senders whose next transactions are both
+available, the one in the higher priority class goes first", as a statement about the ITERATOR
+STATE).  After any admissible history, `Select` and any number `k` of `Tx()`/`Next()` rounds:
+if the iterator is alive it stands on a pending transaction `it.cur`, what it still holds for
+each sender (`senderCursors`, `it.rem z`) is a tail of that sender's index — so its head `u` is the
+next available transaction of `z` —, and for every OTHER sender `z` with a next available
+transaction `u`: `u` is pending, belongs to `z`, and its priority (class) is not above that of
+`it.cur`. -/
+theorem available_class_order (ops : List Op) (h : Admissible ops) (h64 : Int64Prios ops)
+    (k : Nat) (it : Iter) (hit : ((run ops).selectN k).2.2 = .at it) :
+    it.cur ∈ pending ops ∧
+    (∀ z, it.rem z <:+ (run ops).select.1.sidx z) ∧
+    (∀ z, z ≠ it.cur.sender → ∀ u us, it.rem z = u :: us →
+      u ∈ pending ops ∧ u.sender = z ∧ u.prio ≤ it.cur.prio) := by
+  have hi := inv_run ops h
+  have hsel := inv_select hi
+  obtain ⟨_, hav⟩ := selectN_state hi (pending_ge h64) k it hit
+  obtain ⟨hsuf, s0, hcur⟩ := selectN_rem (run ops) k it hit
+  refine ⟨((hsel.smem s0 it.cur).mp hcur).1, hsuf, ?_⟩
+  intro z hz u us hr
+  have hu : u ∈ (run ops).select.1.sidx z := (hsuf z).subset (by rw [hr]; simp)
+  have := (hsel.smem z u).mp hu
+  exact ⟨this.1, this.2, hav z hz u us hr⟩
+
+/-! ### an iterator that is in use while the pool changes (`LState`, `LOp`: `iopen`, `inext`)
+
+The property quantifies over sequences of insert, remove and select, `select` being the whole "ask
+for transactions to propose"; `baseapp` v0.50.13 (`mempool.SelectBy`) indeed touches the pool only
+after its loop.  The Go iterator, however, points into the live skip lists, and nothing in
+`app/mempool` stops a caller from interleaving.  `Model/Mempool.lean` therefore also has the iterator
+against the live pool (`LiveIter`: pointers with a "unlinked" flag, the stored `nextPriority`), the
+harness drives it with Insert / Remove / Select between two `Next()` calls.  What holds:
+* undisturbed, it IS the snapshot iterator: `live_quiet_eq_selectN`;
+* disturbed in any way: safety survives (`live_yields_pending`, `live_sender_increasing`);
+* completeness does not, and `Next()` may panic: `live_remove_current_ends_iteration`,
+  `live_reinsert_current_panics` (both reproduced on /repo). -/
+
+/-- **live_quiet_eq_selectN** (the live iterator refines the snapshot iterator).  After any
+admissible history: `Select` and `k` rounds of `Tx()`/`Next()` on the LIVE iterator, with no pool
+operation in between, yield exactly what the snapshot model `selectN k` yields, end the same way
+(nil / panic / still alive at the same position), and leave the same pool.  Hence every clause
+proved for `select` / `selectN` (`select_perm`, `select_safe`, `class_order`,
+`available_class_order`, `mempool_app`) holds for an undisturbed live iterator; what remains true
+when it IS disturbed: `live_yields_pending`, `live_sender_increasing`. -/
+theorem live_quiet_eq_selectN (ops : List Op) (h : Admissible ops) (k : Nat) :
+    (run ops).liveOpen.1 = ((run ops).selectN k).1 ∧
+    (liveRunIter (run ops).select.1 k (run ops).liveOpen.2).1 = ((run ops).selectN k).2.1 ∧
+    SameRes (run ops).select.1 (liveRunIter (run ops).select.1 k (run ops).liveOpen.2).2
+      ((run ops).selectN k).2.2 := by
+  have hi := inv_select (inv_run ops h)
+  have hsel := selectStart_fst (run ops)
+  have hopen : SameRes (run ops).select.1 (run ops).liveOpen.2 (run ops).selectStart.2 := by
+    unfold Pool.liveOpen
+    simp only
+    by_cases he : (run ops).pidx.isEmpty = true
+    · have : (run ops).selectStart.2 = .done := by unfold Pool.selectStart; rw [if_pos he]
+      rw [this]; trivial
+    · have h2 : (run ops).selectStart.2
+          = advance (run ops).select.1.scores (run ops).select.1.pidx (run ops).select.1.sidx := by
+        rw [← hsel]; unfold Pool.selectStart; rw [if_neg he]
+      rw [h2]
+      have := liveOfAdvance_same (run ops).select.1 hi.ssorted [] (run ops).select.1.pidx (List.suffix_refl _)
+      rw [liveRem_nil] at this
+      revert this
+      cases advance (run ops).select.1.scores (run ops).select.1.pidx (run ops).select.1.sidx with
+      | done => intro this; rw [this]; trivial
+      | panic => intro this; rw [this]; trivial
+      | «at» sit => rintro ⟨lit, e, hs⟩; rw [e]; exact hs
+  have := liveRunIter_same (run ops).select.1 hi.psorted hi.ssorted k _ _ hopen
+  unfold Pool.selectN
+  simp only [hsel]
+  exact ⟨by unfold Pool.liveOpen; exact hsel, this.1, this.2⟩
+
+/-- **live_sender_increasing** (clauses "exactly once" — at most once — and "each sender's
+transactions in strictly increasing sequence-number order", for an iterator that is USED WHILE THE
+POOL CHANGES).  For every interleaving of `Insert`, `Remove`, `Select` with `Select`/`Next()` calls
+on one iterator — no precondition at all, not even `Admissible` —: among the transactions one
+iterator (one `iopen` generation) yields, those of the same sender come with strictly increasing
+sequence numbers; hence no (sender, sequence) is yielded twice by the same iterator, whatever was
+inserted, removed, replaced or re-weighed in between. -/
+theorem live_sender_increasing (lops : List LOp) :
+    (ltrace LState.init 0 lops).Pairwise
+      (fun a b => a.1 = b.1 → a.2.sender = b.2.sender → a.2.nonce < b.2.nonce) :=
+  ltrace_pairwise lops LState.init 0 sidxSender_empty
+
+/-- **live_yields_pending** (clause "never a removed one", for an iterator that is used while the
+pool changes).  In every interleaved history whose pool operations are admissible: whatever
+`Select` or `Next()` yields is, AT THAT MOMENT, a pending transaction — the current one of its
+(sender, sequence): not one that has been removed, and not one that has been replaced. -/
+theorem live_yields_pending (lops : List LOp) (h : Admissible (lpoolOps lops))
+    (pre post : List LOp) (op : LOp) (t : Tx) (hsplit : lops = pre ++ op :: post)
+    (hy : ((lrun pre).1.step op).2 = .tx t) :
+    t ∈ pending (lpoolOps (pre ++ [op])) ∧
+    (∀ t' ∈ pending (lpoolOps (pre ++ [op])), t'.sender = t.sender → t'.nonce = t.nonce → t' = t) := by
+  have hadm : Admissible (lpoolOps (pre ++ [op])) := by
+    have : lpoolOps lops = lpoolOps (pre ++ [op]) ++ lpoolOps post := by
+      rw [hsplit, ← lpoolOps_append]; simp
+    rw [this] at h
+    exact h.prefix
+  have hpre : Admissible (lpoolOps pre) := by
+    rw [lpoolOps_append] at hadm; exact hadm.prefix
+  have hi := inv_run _ hpre
+  have hpool := lrun_pool pre
+  have hmem : t ∈ pending (lpoolOps (pre ++ [op])) := by
+    cases op with
+    | pool o =>
+      have : ((lrun pre).1.step (.pool o)).2 = .none := by cases o <;> rfl
+      rw [this] at hy; cases hy
+    | iopen =>
+      have hp : pending (lpoolOps (pre ++ [.iopen])) = pending (lpoolOps pre) := by
+        rw [lpoolOps_append, pending_append]; rfl
+      rw [hp]
+      simp only [LState.step] at hy
+      cases hr : (lrun pre).1.pool.liveOpen.2 with
+      | done => rw [hr] at hy; cases hy
+      | panic => rw [hr] at hy; cases hy
+      | «at» it' =>
+        obtain ⟨z, e, es, h1, h2, h3⟩ := liveOpen_at _ it' hr
+        rw [hr, yield_at it' z e [] h2 h3] at hy
+        cases hy
+        rw [hpool] at h1
+        exact (((inv_select hi).smem z t).mp (by rw [h1]; simp)).1
+    | inext =>
+      have hp : pending (lpoolOps (pre ++ [.inext])) = pending (lpoolOps pre) := by
+        rw [lpoolOps_append]; simp [lpoolOps]
+      rw [hp]
+      cases hit : (lrun pre).1.it with
+      | none => simp only [LState.step, hit] at hy; cases hy
+      | some it =>
+        simp only [LState.step, hit] at hy
+        cases hr : it.next (lrun pre).1.pool with
+        | done => rw [hr] at hy; cases hy
+        | panic => rw [hr] at hy; cases hy
+        | «at» it' =>
+          obtain ⟨z, e, es, h1, h2, h3⟩ := next_at _ it it' hr
+          rw [hr, yield_at it' z e it.cursors h2 h3] at hy
+          cases hy
+          have := liveRem_sub _ _ _ t (by rw [h1]; simp)
+          rw [hpool] at this
+          exact ((hi.smem z t).mp this).1
+  refine ⟨hmem, ?_⟩
+  intro t' ht' hs hn
+  exact nodup_map_inj (inv_run _ hadm).keys_nodup ht' hmem (by simp [Tx.skey, hs, hn])
+
 
 /-- **classes.** `NewDefaultTxPriority`: a transaction with exactly one message whose type URL
 starts with the consensus / scheduler / evm / valset prefix gets a priority that is ordered
@@ -1913,14 +3866,17 @@ theorem class_rank (urls urls' : List String) (c c' : Int) :
 /-- **class_order_tx** (clause "between two senders whose next transactions are both available,
 the one in the higher priority class goes first", on histories of the operations the
 application really issues).  `Insert(ctx, tx)` is given message type URLs and a CheckTx
-priority; the priority is *derived* (`TxOp.toOp` = `GetTxPriority`).  If every CheckTx priority
-of the history is below `MaxInt64 - 3`, then whenever `t` is yielded while `u` is the next
+priority; the priority is *derived* (`TxOp.toOp` = `GetTxPriority`).  If the CheckTx priority of
+every PENDING transaction of the class "all others" is below `MaxInt64 - 3` (nothing is asked of
+removed or replaced transactions, nor of transactions in one of the four classes; `Int64Ctx` is
+the Go type `int64`), then whenever `t` is yielded while `u` is the next
 transaction of another sender, `t` and `u` are the pending transactions inserted with URLs
 `xt.urls`, `xu.urls` (by `insert` operations of the history), and the class of `u` is not above
 the class of `t`; inside the class "all others" the CheckTx priority of `u` is not above that
 of `t`.  The bound cannot be dropped: `classes_false_at_bound`. -/
 theorem class_order_tx (tops : List TxOp) (h : Admissible (tops.map TxOp.toOp))
-    (hc : ∀ s n urls c id, TxOp.insert s n urls c id ∈ tops → minInt64 ≤ c ∧ c < maxInt64 - 3)
+    (h64c : Int64Ctx tops)
+    (hc : ∀ x ∈ tpending tops, classOf x.urls = 0 → x.ctxPrio < maxInt64 - 3)
     (pre mid post : List Tx) (t u : Tx)
     (hout : (run (tops.map TxOp.toOp)).select.2.1 = pre ++ t :: (mid ++ u :: post))
     (hne : t.sender ≠ u.sender) (hnext : ∀ v ∈ mid, v.sender ≠ u.sender) :
@@ -1929,13 +3885,6 @@ theorem class_order_tx (tops : List TxOp) (h : Admissible (tops.map TxOp.toOp))
       TxOp.insert u.sender u.nonce xu.urls xu.ctxPrio u.id ∈ tops ∧
       classOf xu.urls ≤ classOf xt.urls ∧
       (classOf xt.urls = 0 → xu.ctxPrio ≤ xt.ctxPrio) := by
-  have h64c : Int64Ctx tops := by
-    intro s n urls c id hin
-    have := hc s n urls c id hin
-    refine ⟨this.1, ?_⟩
-    have h2 := this.2
-    simp only [maxInt64] at h2 ⊢
-    omega
   have h64 := int64Prios_of_ctx h64c
   have hco := class_order _ h h64 pre mid post t u hout hne hnext
   obtain ⟨_, hsub, _⟩ := select_safe _ h h64
@@ -1946,15 +3895,14 @@ theorem class_order_tx (tops : List TxOp) (h : Admissible (tops.map TxOp.toOp))
   obtain ⟨xu, hxu, eu⟩ := List.mem_map.mp hum
   obtain ⟨pt, it⟩ := tpending_prov tops xt hxt
   obtain ⟨pu, iu⟩ := tpending_prov tops xu hxu
-  have hcu := (hc _ _ _ _ _ iu).2
-  have hct := (hc _ _ _ _ _ it).2
+  have hct := hc xt hxt
   rw [et] at pt it
   rw [eu] at pu iu
   rw [pt, pu, txPriority_rank, txPriority_rank] at hco
   have hle : classOf xu.urls ≤ classOf xt.urls := by
     apply Nat.le_of_not_lt
     intro hlt
-    have := rankPrio_lt _ _ (classOf_le xu.urls) hlt xt.ctxPrio xu.ctxPrio hct
+    have := rankPrio_lt' _ _ (classOf_le xu.urls) hlt xt.ctxPrio xu.ctxPrio hct
     omega
   refine ⟨xt, hxt, xu, hxu, et, eu, it, iu, hle, ?_⟩
   intro h0
@@ -1964,13 +3912,20 @@ theorem class_order_tx (tops : List TxOp) (h : Admissible (tops.map TxOp.toOp))
 
 /-- **mempool_app** (the whole property for the mempool as `app/app.go` wires it).  The ante
 handler is built with `TxFeeChecker: TxFeeSkipper`, so `ctx.Priority()` is `appCtxPriority = 42`
-for every `Insert`.  For every history of such inserts, removes and selects with (sender,
-sequence) unique among pending transactions — and nothing else assumed — `CountTx` is the number
-of pending transactions; `Select` does not panic and yields every pending transaction exactly
-once and nothing else; each sender's transactions come in strictly increasing nonce order; and
-when `t` is yielded while `u` is the next transaction of another sender, the class of `u`
-(consensus 4 > scheduler 3 > evm 2 > valset 1 > others 0, by the URLs given to `Insert`) is not
-above the class of `t`. -/
+for every `Insert` (`model_constants_from_source`).  For every history of such inserts, removes and
+selects without a priority-changing insert on a pending key (`Admissible`; for the wired
+application see `mempool_wired`) — and nothing else assumed:
+1. `CountTx` is the number of pending transactions;
+2. `Select` does not panic and yields every pending transaction exactly once and nothing else
+   (in particular nothing removed or replaced);
+3. each sender's transactions come in strictly increasing nonce order, and none is yielded before
+   a pending transaction of the same sender with a smaller nonce;
+4. when `t` is yielded while `u` is the next transaction of another sender, both are the pending
+   transactions some `insert` of the history put there, and the class of `u` (consensus 4 >
+   scheduler 3 > evm 2 > valset 1 > others 0, by the URLs given to `Insert`) is not above the
+   class of `t`;
+5. a proposer that stops after `k` transactions got the first `k` of that sequence, without a
+   panic. -/
 theorem mempool_app (tops : List TxOp) (h : Admissible (tops.map TxOp.toOp))
     (happ : ∀ s n urls c id, TxOp.insert s n urls c id ∈ tops → c = appCtxPriority) :
     (run (tops.map TxOp.toOp)).count = (tpending tops).length ∧
@@ -1979,18 +3934,25 @@ theorem mempool_app (tops : List TxOp) (h : Admissible (tops.map TxOp.toOp))
     (run (tops.map TxOp.toOp)).select.2.1.Nodup ∧
     (∀ s, (((run (tops.map TxOp.toOp)).select.2.1.filter (fun t => t.sender == s)).map Tx.nonce).Pairwise
       (· < ·)) ∧
+    (∀ (pre post : List Tx) (t t' : Tx),
+      (run (tops.map TxOp.toOp)).select.2.1 = pre ++ t :: post → t' ∈ (tpending tops).map PTx.tx →
+      t'.sender = t.sender → t'.nonce < t.nonce → t' ∈ pre) ∧
     (∀ (pre mid post : List Tx) (t u : Tx),
       (run (tops.map TxOp.toOp)).select.2.1 = pre ++ t :: (mid ++ u :: post) →
       t.sender ≠ u.sender → (∀ v ∈ mid, v.sender ≠ u.sender) →
       ∃ xt ∈ tpending tops, ∃ xu ∈ tpending tops, xt.tx = t ∧ xu.tx = u ∧
-        classOf xu.urls ≤ classOf xt.urls) := by
-  have hc : ∀ s n urls c id, TxOp.insert s n urls c id ∈ tops → minInt64 ≤ c ∧ c < maxInt64 - 3 := by
-    intro s n urls c id hin
-    rw [happ s n urls c id hin]
-    decide
+        TxOp.insert t.sender t.nonce xt.urls xt.ctxPrio t.id ∈ tops ∧
+        TxOp.insert u.sender u.nonce xu.urls xu.ctxPrio u.id ∈ tops ∧
+        classOf xu.urls ≤ classOf xt.urls) ∧
+    (∀ k, ((run (tops.map TxOp.toOp)).selectN k).2.1 = (run (tops.map TxOp.toOp)).select.2.1.take k ∧
+      ((run (tops.map TxOp.toOp)).selectN k).2.2.isPanic = false) := by
   have h64c : Int64Ctx tops := by
     intro s n urls c id hin
     rw [happ s n urls c id hin]
+    decide
+  have hc : ∀ x ∈ tpending tops, classOf x.urls = 0 → x.ctxPrio < maxInt64 - 3 := by
+    intro x hx _
+    rw [happ _ _ _ _ _ (tpending_prov tops x hx).2]
     decide
   have h64 := int64Prios_of_ctx h64c
   have hmin : NoMin (pending (tops.map TxOp.toOp)) := by
@@ -1999,13 +3961,63 @@ theorem mempool_app (tops : List TxOp) (h : Admissible (tops.map TxOp.toOp))
     rw [happ s n urls c id hin]
     decide
   obtain ⟨p1, p2, p3, _⟩ := select_perm _ h h64 hmin
-  refine ⟨?_, p1, ?_, p3, fun s => select_sender_sorted _ h h64 s, ?_⟩
+  obtain ⟨_, _, _, s4, _, _⟩ := select_safe _ h h64
+  refine ⟨?_, p1, ?_, p3, fun s => select_sender_sorted _ h h64 s, ?_, ?_, ?_⟩
   · rw [(index_consistent _ h).2.2.2.2.2, ← tpending_tx, List.length_map]
   · rw [tpending_tx]; exact p2
+  · intro pre post t t' hout ht' hs hlt
+    rw [tpending_tx] at ht'
+    have hin := s4 t (by rw [hout]; simp) t' ht' hs hlt
+    rw [hout] at hin p3
+    rcases List.mem_append.mp hin with hin | hin
+    · exact hin
+    · -- `t'` is `t` or behind it: impossible, the sender's nonces increase along the output
+      exfalso
+      have hsort := select_sender_sorted _ h h64 t.sender
+      rw [hout, List.filter_append, List.map_append, List.pairwise_append] at hsort
+      rcases List.mem_cons.mp hin with e | hin
+      · rw [e] at hlt; omega
+      · have h2 := hsort.2.1
+        rw [List.filter_cons, if_pos (by simp), List.map_cons, List.pairwise_cons] at h2
+        have := h2.1 t'.nonce (List.mem_map.mpr ⟨t', List.mem_filter.mpr ⟨hin, by simp [hs]⟩, rfl⟩)
+        omega
   · intro pre mid post t u hout hne hnext
-    obtain ⟨xt, hxt, xu, hxu, et, eu, _, _, hle, _⟩ :=
-      class_order_tx tops h hc pre mid post t u hout hne hnext
-    exact ⟨xt, hxt, xu, hxu, et, eu, hle⟩
+    obtain ⟨xt, hxt, xu, hxu, et, eu, it, iu, hle, _⟩ :=
+      class_order_tx tops h h64c hc pre mid post t u hout hne hnext
+    exact ⟨xt, hxt, xu, hxu, et, eu, it, iu, hle⟩
+  · intro k
+    obtain ⟨q1, _, _, _, q5⟩ := selectN_complete _ h h64 hmin k
+    refine ⟨q1, ?_⟩
+    revert q5
+    cases ((run (tops.map TxOp.toOp)).selectN k).2.2 with
+    | panic => intro q5; exact q5.elim
+    | done => intro _; rfl
+    | «at» it => intro _; rfl
+
+/-- **mempool_wired** (the property for the application: admission + mempool).  Whatever the
+application receives on its mempool connection — `CheckTx`, `FinalizeBlock`, `Commit` with
+CometBFT's re-check, `PrepareProposal`, see `AOp` — as long as every commit re-checks what the
+application pool holds (`ACovered`, the external assumption of `admission_admissible`): the pool
+operations it issues satisfy every conclusion of `mempool_app`.  No assumption on the pool
+operations themselves is left. -/
+theorem mempool_wired (seq0 : String → Nat) (aops : List AOp) (hcov : ACovered seq0 [] aops) :
+    Fresh ((acompile seq0 aops).map TxOp.toOp) ∧
+    (run ((acompile seq0 aops).map TxOp.toOp)).count = (tpending (acompile seq0 aops)).length ∧
+    (run ((acompile seq0 aops).map TxOp.toOp)).select.2.2 = false ∧
+    (run ((acompile seq0 aops).map TxOp.toOp)).select.2.1.Perm ((tpending (acompile seq0 aops)).map PTx.tx) ∧
+    (∀ s, (((run ((acompile seq0 aops).map TxOp.toOp)).select.2.1.filter
+      (fun t => t.sender == s)).map Tx.nonce).Pairwise (· < ·)) ∧
+    (∀ (pre mid post : List Tx) (t u : Tx),
+      (run ((acompile seq0 aops).map TxOp.toOp)).select.2.1 = pre ++ t :: (mid ++ u :: post) →
+      t.sender ≠ u.sender → (∀ v ∈ mid, v.sender ≠ u.sender) →
+      ∃ xt ∈ tpending (acompile seq0 aops), ∃ xu ∈ tpending (acompile seq0 aops), xt.tx = t ∧ xu.tx = u ∧
+        classOf xu.urls ≤ classOf xt.urls) := by
+  obtain ⟨hf, hadm, hctx⟩ := admission_admissible seq0 aops hcov
+  obtain ⟨m1, m2, m3, _, m5, _, m7, _⟩ := mempool_app (acompile seq0 aops) hadm hctx
+  refine ⟨hf, m1, m2, m3, m5, ?_⟩
+  intro pre mid post t u hout hne hnext
+  obtain ⟨xt, hxt, xu, hxu, et, eu, _, _, hle⟩ := m7 pre mid post t u hout hne hnext
+  exact ⟨xt, hxt, xu, hxu, et, eu, hle⟩
 
 /-! ### clauses that are FALSE for `app/mempool` in isolation (behaviour of /repo, reproduced on
 the real `PriorityNonceMempool` by the fixed histories of `TestC19`) -/
@@ -2089,12 +4101,19 @@ theorem classes_false_at_bound :
       (by decide) (by decide)
     exact absurd this (by decide)
 
-/-- **replacement_changes_priority_loses_tx** (outside the precondition; behaviour of the code
-as it is).  Re-inserting a pending (sender, nonce) with a *different* priority leaves the old
+/- Full-strength statement of "yields every pending transaction" under the LITERAL precondition
+   of the property text (unique pending keys; `Int64Prios` typing, and even `NoMin`):
+     ∀ ops, KeysUnique ops → Int64Prios ops → NoMin (pending ops) →
+       (run ops).select.2.1.Perm (pending ops)
+   It is false (next theorem); `select_perm` under `Admissible` is the true statement. -/
+
+/-- **replacement_changes_priority_loses_tx** (the behaviour of the code that makes `Admissible`
+necessary).  Re-inserting a pending (sender, nonce) with a *different* priority leaves the old
 priority in the key of the sender-index element (`skiplist.Set` only replaces the value), and
 the iterator compares that stale key priority: here `a:0` (re-inserted with priority 10) is
-pending and counted, but `Select` yields only `b:0`.  The same history run against the real
-`PriorityNonceMempool` gives the same result (first history of `TestC19`). -/
+pending and counted, but `Select` yields only `b:0`, without a panic.  The same history run against
+the real `PriorityNonceMempool` gives the same result (first fixed history of `TestC19`, stat
+`finding.replacement_with_changed_priority_loses_tx`). -/
 theorem replacement_changes_priority_loses_tx :
     pending [.insert "a" 0 1 1, .insert "a" 0 10 2, .insert "b" 0 5 3]
       = [⟨"b", 0, 5, 3⟩, ⟨"a", 0, 10, 2⟩] ∧
@@ -2104,6 +4123,100 @@ theorem replacement_changes_priority_loses_tx :
     ¬ Admissible [.insert "a" 0 1 1, .insert "a" 0 10 2, .insert "b" 0 5 3] := by
   refine ⟨by decide, by decide, by decide, ?_⟩
   simp [Admissible, AdmFrom, OpOk, pendingStep]
+
+/-- **literal_precondition_insufficient.** Under the precondition exactly as the property text
+words it — at most one pending transaction per (sender, sequence), at every point of the history —
+the clause "yields every pending transaction" is FALSE: the history of
+`replacement_changes_priority_loses_tx` has unique pending keys at every prefix (every history
+has), `int64` priorities, no `MinValue` priority, and still a pending transaction is not yielded.
+This is why the theorems assume `Admissible` (no insert on a pending key with a changed priority),
+which is strictly stronger than the text and is discharged for the application by
+`admission_admissible`. -/
+theorem literal_precondition_insufficient :
+    ¬ (∀ ops, KeysUnique ops → Int64Prios ops → NoMin (pending ops) →
+        (run ops).select.2.1.Perm (pending ops)) := by
+  intro hall
+  have := hall [.insert "a" 0 1 1, .insert "a" 0 10 2, .insert "b" 0 5 3] (keys_unique_always _)
+    (by
+      intro s n p id hm
+      simp only [List.mem_cons, Op.insert.injEq, List.not_mem_nil, or_false] at hm
+      rcases hm with ⟨_, _, rfl, _⟩ | ⟨_, _, rfl, _⟩ | ⟨_, _, rfl, _⟩ <;> decide)
+    (by unfold NoMin; decide)
+  have hl := this.length_eq
+  rw [replacement_changes_priority_loses_tx.2.2.1, replacement_changes_priority_loses_tx.1] at hl
+  cases hl
+
+/-- **admission_uncovered_replaces** (the assumption `ACovered` of `admission_admissible` cannot be
+dropped; reachability of the replacement through admission).  If a commit does not re-check a
+transaction the application pool still holds (CometBFT configured with `recheck = false`, or a
+transaction CometBFT dropped after the application had accepted it — `resCbFirstTime` re-tests
+`isFull` after `CheckTx` returned), the check state forgets its sequence bump and a second
+transaction with the same (sender, sequence) passes the ante handler.  Here: a bank send `a:0`
+(priority 42), a commit that re-checks nothing, then a consensus message `a:0` (priority
+`MaxInt64`) and a scheduler message `b:0`.  The compiled pool history is not admissible, and
+`Select` proposes `b:0` only — the pending consensus message `a:0` is lost for this proposer. -/
+theorem admission_uncovered_replaces :
+    acompile (fun _ => 0)
+      [.checkTx "a" 0 ["/cosmos.bank.v1beta1.MsgSend"] 1 true, .commit (fun _ => 0) [],
+       .checkTx "a" 0 ["/palomachain.paloma.consensus.MsgAddEvidence"] 2 true,
+       .checkTx "b" 0 ["/palomachain.paloma.scheduler.MsgCreateJob"] 3 true]
+      = [.insert "a" 0 ["/cosmos.bank.v1beta1.MsgSend"] 42 1,
+         .insert "a" 0 ["/palomachain.paloma.consensus.MsgAddEvidence"] 42 2,
+         .insert "b" 0 ["/palomachain.paloma.scheduler.MsgCreateJob"] 42 3] ∧
+    ¬ ACovered (fun _ => 0) []
+      [.checkTx "a" 0 ["/cosmos.bank.v1beta1.MsgSend"] 1 true, .commit (fun _ => 0) [],
+       .checkTx "a" 0 ["/palomachain.paloma.consensus.MsgAddEvidence"] 2 true,
+       .checkTx "b" 0 ["/palomachain.paloma.scheduler.MsgCreateJob"] 3 true] ∧
+    ¬ Admissible ([TxOp.insert "a" 0 ["/cosmos.bank.v1beta1.MsgSend"] 42 1,
+         .insert "a" 0 ["/palomachain.paloma.consensus.MsgAddEvidence"] 42 2,
+         .insert "b" 0 ["/palomachain.paloma.scheduler.MsgCreateJob"] 42 3].map TxOp.toOp) ∧
+    pending ([TxOp.insert "a" 0 ["/cosmos.bank.v1beta1.MsgSend"] 42 1,
+         .insert "a" 0 ["/palomachain.paloma.consensus.MsgAddEvidence"] 42 2,
+         .insert "b" 0 ["/palomachain.paloma.scheduler.MsgCreateJob"] 42 3].map TxOp.toOp)
+      = [⟨"b", 0, maxInt64 - 1, 3⟩, ⟨"a", 0, maxInt64, 2⟩] ∧
+    (run ([TxOp.insert "a" 0 ["/cosmos.bank.v1beta1.MsgSend"] 42 1,
+         .insert "a" 0 ["/palomachain.paloma.consensus.MsgAddEvidence"] 42 2,
+         .insert "b" 0 ["/palomachain.paloma.scheduler.MsgCreateJob"] 42 3].map TxOp.toOp)).select.2
+      = ([⟨"b", 0, maxInt64 - 1, 3⟩], false) := by
+  refine ⟨by decide, ?_, ?_, by decide, by decide⟩
+  · simp [ACovered, aemit, pendingStep, TxOp.toOp]
+  · simp [Admissible, AdmFrom, OpOk, pendingStep, TxOp.toOp, txPriority, classRank, classTable,
+      hasPrefix, maxInt64]
+
+/- Full-strength statement of "yields every pending transaction" for an iterator that is used while
+   the pool changes (say: every transaction that is pending from the `iopen` until the iterator
+   turns nil is yielded) is FALSE, and `Next()` may even panic inside the precondition: -/
+
+/-- **live_remove_current_ends_iteration** (behaviour of /repo; first fixed live history of
+`TestC19`, stat `finding.live_remove_of_current_tx_ends_iteration`).  The iterator stands on `a:0`;
+`Remove(a:0)` unlinks the sender element AND the priority element it points to, both answer
+`Next() = nil` from then on, and the next `Next()` returns nil: `b:0` and `c:0`, pending all the
+time, are not yielded by this iterator.  (`baseapp` v0.50.13 removes invalid transactions only after
+its loop — `SelectBy` — for exactly this reason.) -/
+theorem live_remove_current_ends_iteration :
+    (lrun [.pool (.insert "a" 0 9 1), .pool (.insert "b" 0 5 2), .pool (.insert "c" 0 3 3), .iopen,
+      .pool (.remove "a" 0), .inext]).2
+      = [.none, .none, .none, .tx ⟨"a", 0, 9, 1⟩, .none, .nil] ∧
+    pending (lpoolOps [.pool (.insert "a" 0 9 1), .pool (.insert "b" 0 5 2), .pool (.insert "c" 0 3 3),
+      .iopen, .pool (.remove "a" 0), .inext]) = [⟨"c", 0, 3, 3⟩, ⟨"b", 0, 5, 2⟩] := by
+  decide
+
+/-- **live_reinsert_current_panics** (behaviour of /repo; second fixed live history of `TestC19`,
+stat `finding.live_reinsert_of_current_tx_panics`).  INSIDE the precondition: the iterator stands on
+`a:0`; the same transaction is submitted again with the SAME priority (`Insert` unlinks the old
+priority element and links a new one; the sender element survives).  The next `Next()` moves the
+cursor to `a:1`, whose priority equals the stored `nextPriority`, and dereferences
+`priorityNode.Next()` of the unlinked element: nil — panic.  Not reachable through `baseapp`'s
+sequential loop; reachable only if `CheckTx` runs concurrently with `PrepareProposal` (this copy of
+the mempool has no mutex, upstream v0.50.13 has). -/
+theorem live_reinsert_current_panics :
+    Admissible (lpoolOps [.pool (.insert "a" 0 9 1), .pool (.insert "a" 1 5 2), .pool (.insert "b" 0 5 3),
+      .iopen, .pool (.insert "a" 0 9 4), .inext]) ∧
+    (lrun [.pool (.insert "a" 0 9 1), .pool (.insert "a" 1 5 2), .pool (.insert "b" 0 5 3), .iopen,
+      .pool (.insert "a" 0 9 4), .inext]).2
+      = [.none, .none, .none, .tx ⟨"a", 0, 9, 1⟩, .none, .panic] := by
+  refine ⟨?_, by decide⟩
+  simp [lpoolOps, Admissible, AdmFrom, OpOk, pendingStep]
 
 /-! ### non-vacuity (every example goes through `run` from the empty pool) -/
 
@@ -2223,5 +4336,80 @@ example :
     classRank "/palomachain.paloma.consensusx.MsgFoo" = none ∧
     txPriority ["/palomachain.paloma.evm.MsgRemoveSmartContractDeploymentRequest"] 7 = maxInt64 - 2 ∧
     txPriority ["/palomachain.paloma.evm.A", "/palomachain.paloma.evm.B"] 7 = 7 := by decide
+
+/-- the iterator STATE after two `Next()` rounds on `exampleHistory` (`available_class_order`):
+    it stands on `a:1` (priority 9); the next available transactions of the other senders are
+    `c:1` (5) and `b:1` (5), both not above 9; `c:0` and `a:0` are behind the cursors -/
+example :
+    ((run exampleHistory).selectN 2).2.2.cur? = some ⟨"a", 1, 9, 3⟩ ∧
+    ((run exampleHistory).selectN 2).2.2.remOf "c" = [⟨"c", 1, 5, 6⟩] ∧
+    ((run exampleHistory).selectN 2).2.2.remOf "b" = [⟨"b", 1, 5, 5⟩] ∧
+    ((run exampleHistory).selectN 2).2.2.remOf "a" = [] := by decide
+
+/-- an application-level history (`AOp`) that meets `ACovered`, through `acompile` from check-state
+    sequences 0: two accepted transactions of `a`, a third with an already used sequence number is
+    refused by the ante handler (nothing reaches the pool), `b:0`, a proposal, `a:0` is executed in a
+    block, the commit re-checks the two transactions still pending (`a:1` passes with committed
+    sequence 1, `b:0` passes), then `a:2`.  `admission_admissible` / `mempool_wired` apply. -/
+def appAdmission : List AOp :=
+  [.checkTx "a" 0 ["/cosmos.bank.v1beta1.MsgSend"] 1 true,
+   .checkTx "a" 1 ["/palomachain.paloma.consensus.MsgAddEvidence"] 2 true,
+   .checkTx "a" 1 ["/palomachain.paloma.valset.MsgKeepAlive"] 9 true,
+   .checkTx "b" 0 ["/palomachain.paloma.scheduler.MsgCreateJob"] 3 true,
+   .select,
+   .finalizeTx "a" 0,
+   .commit (fun s => if s = "a" then 1 else 0) [("a", 1, true), ("b", 0, true)],
+   .checkTx "a" 2 ["/palomachain.paloma.evm.MsgX"] 4 true,
+   .checkTx "b" 0 ["/cosmos.bank.v1beta1.MsgSend"] 5 true]
+
+example : acompile (fun _ => 0) appAdmission =
+    [.insert "a" 0 ["/cosmos.bank.v1beta1.MsgSend"] 42 1,
+     .insert "a" 1 ["/palomachain.paloma.consensus.MsgAddEvidence"] 42 2,
+     .insert "b" 0 ["/palomachain.paloma.scheduler.MsgCreateJob"] 42 3,
+     .select, .remove "a" 0,
+     .insert "a" 2 ["/palomachain.paloma.evm.MsgX"] 42 4] := by decide
+
+example : ACovered (fun _ => 0) [] appAdmission := by
+  simp [appAdmission, ACovered, aemit, pendingStep, TxOp.toOp, upd]
+
+example : (run ((acompile (fun _ => 0) appAdmission).map TxOp.toOp)).select.2 =
+    ([⟨"a", 1, maxInt64, 2⟩, ⟨"b", 0, maxInt64 - 1, 3⟩, ⟨"a", 2, maxInt64 - 2, 4⟩], false) := by decide
+
+/-- a commit whose re-check FAILS for a pending transaction (its sequence was used up by a block
+    from another proposer: committed sequence of `a` is 1 while `a:0` is pending) removes it from
+    the application pool, and the sequence number becomes free again without a replacement -/
+example : acompile (fun _ => 0)
+      [.checkTx "a" 0 ["/cosmos.bank.v1beta1.MsgSend"] 1 true,
+       .commit (fun s => if s = "a" then 1 else 0) [("a", 0, true)],
+       .checkTx "a" 1 ["/cosmos.bank.v1beta1.MsgSend"] 2 true]
+    = [.insert "a" 0 ["/cosmos.bank.v1beta1.MsgSend"] 42 1, .remove "a" 0,
+       .insert "a" 1 ["/cosmos.bank.v1beta1.MsgSend"] 42 2] := by decide
+
+/-- an interleaved history through `lrun` from the empty pool (all priorities tied at 5): the
+    iterator opens on `b:0`; `a:0` and `a:2` are inserted while it is in use — `a` has no cursor yet,
+    so both are picked up, in nonce order; `b:0`, already yielded, is removed (only `b`'s cursor dies);
+    a second `iopen` starts generation 2 on `a:0`; another `Select` re-weighs the tied elements, which
+    unlinks the priority element the iterator stands on, and its next `Next()` panics.
+    `live_yields_pending` and `live_sender_increasing` speak about exactly these yields. -/
+def liveExample : List LOp :=
+  [.pool (.insert "a" 1 5 1), .pool (.insert "b" 0 5 2), .iopen, .pool (.insert "a" 0 5 3),
+   .pool (.insert "a" 2 5 4), .inext, .pool (.remove "b" 0), .inext, .inext, .iopen, .pool .select,
+   .inext, .inext]
+
+example : (lrun liveExample).2 =
+    [.none, .none, .tx ⟨"b", 0, 5, 2⟩, .none, .none, .tx ⟨"a", 0, 5, 3⟩, .none, .tx ⟨"a", 1, 5, 1⟩,
+     .tx ⟨"a", 2, 5, 4⟩, .tx ⟨"a", 0, 5, 3⟩, .none, .panic, .none] ∧
+    ltrace LState.init 0 liveExample =
+      [(1, ⟨"b", 0, 5, 2⟩), (1, ⟨"a", 0, 5, 3⟩), (1, ⟨"a", 1, 5, 1⟩), (1, ⟨"a", 2, 5, 4⟩),
+       (2, ⟨"a", 0, 5, 3⟩)] := by decide
+
+example : Admissible (lpoolOps liveExample) := by
+  simp [liveExample, lpoolOps, Admissible, AdmFrom, OpOk, pendingStep]
+
+/-- `live_quiet_eq_selectN` on `exampleHistory`: three undisturbed rounds of the live iterator give
+    the first three transactions of the snapshot model -/
+example : (liveRunIter (run exampleHistory).select.1 3 (run exampleHistory).liveOpen.2).1
+      = [⟨"c", 0, 7, 4⟩, ⟨"a", 0, 5, 1⟩, ⟨"a", 1, 9, 3⟩] ∧
+    ((run exampleHistory).selectN 3).2.1 = [⟨"c", 0, 7, 4⟩, ⟨"a", 0, 5, 1⟩, ⟨"a", 1, 9, 3⟩] := by decide
 
 end Paloma.Mempool
